@@ -1,1 +1,2416 @@
-//! (stub)
+//! G-varhdr / G-var — shared generator for VCF/BCF headers and header-consistent records.
+//!
+//! Layout of this module
+//!   1. plain serialisable model types (`VarHeader`, `VarRecord`, `InfoValue`, `SampleValue`, …)
+//!   2. conversions model → noodles (`to_noodles`) and noodles → model (`from_noodles`,
+//!      `from_record_buf`, `from_variant_record` = accessor sweep over any `variant::Record`)
+//!   3. normal forms and comparison helpers (`normalised`, `first_diff`), `canonical_text`
+//!   4. strategies: `header(tier, &Mode)`, `record(&VarHeader, &Mode)`, `document(tier, &Mode)`
+//!   5. helpers: `sort_records`, `harness_span`, `expected_string_indices`
+//!
+//! No property-specific logic lives here. The only noodles-specific knowledge is the *domain*:
+//! what the writers accept (see `Mode`) and, under `Mode::hazard_permille`, value classes that are
+//! inside the formats' domain but that the pinned noodles tree is known to mishandle (the list is
+//! documented at `Hazard`); with `hazard_permille = 0` none of them is produced.
+
+use crate::engine::{Tier, pick_idx};
+use noodles_core::Position;
+use noodles_vcf as vcf;
+use proptest::prelude::*;
+use serde::{Deserialize, Serialize};
+use std::collections::BTreeSet;
+
+// ------------------------------------------------------------------------------------------------
+// 1. model
+// ------------------------------------------------------------------------------------------------
+
+#[derive(Clone, Copy, Debug, PartialEq, Eq, Serialize, Deserialize)]
+pub enum Num {
+    Count(u32),
+    A,
+    R,
+    G,
+    Unknown,
+    /// FORMAT only (noodles `format::Number` has them; the text parser does not): LA LR LG P M
+    LA,
+    LR,
+    LG,
+    P,
+    M,
+}
+
+#[derive(Clone, Copy, Debug, PartialEq, Eq, Serialize, Deserialize)]
+pub enum Ty {
+    Integer,
+    Float,
+    Flag,
+    Character,
+    String,
+}
+
+#[derive(Clone, Debug, PartialEq, Eq, Serialize, Deserialize)]
+pub struct FieldDef {
+    pub id: String,
+    pub number: Num,
+    pub ty: Ty,
+    pub description: String,
+    pub idx: Option<u32>,
+    pub extra: Vec<(String, String)>,
+}
+
+#[derive(Clone, Debug, PartialEq, Eq, Serialize, Deserialize)]
+pub struct FilterDef {
+    pub id: String,
+    pub description: String,
+    pub idx: Option<u32>,
+    pub extra: Vec<(String, String)>,
+}
+
+#[derive(Clone, Debug, PartialEq, Eq, Serialize, Deserialize)]
+pub struct AltDef {
+    pub id: String,
+    pub description: String,
+    pub extra: Vec<(String, String)>,
+}
+
+#[derive(Clone, Debug, PartialEq, Eq, Serialize, Deserialize)]
+pub struct ContigDef {
+    pub id: String,
+    pub length: Option<u64>,
+    pub md5: Option<String>,
+    pub url: Option<String>,
+    pub idx: Option<u32>,
+    pub extra: Vec<(String, String)>,
+}
+
+#[derive(Clone, Debug, PartialEq, Eq, Serialize, Deserialize)]
+pub enum OtherValue {
+    /// `##key=value`
+    Text(String),
+    /// `##key=<ID=id,k="v",…>` (for key META: Type/Number/Values are written unquoted)
+    Map { id: String, fields: Vec<(String, String)> },
+}
+
+#[derive(Clone, Debug, PartialEq, Eq, Serialize, Deserialize)]
+pub struct OtherDef {
+    pub key: String,
+    pub value: OtherValue,
+}
+
+#[derive(Clone, Debug, PartialEq, Eq, Serialize, Deserialize)]
+pub struct VarHeader {
+    /// fileformat VCFv4.<minor>
+    pub minor: u32,
+    pub infos: Vec<FieldDef>,
+    pub filters: Vec<FilterDef>,
+    pub formats: Vec<FieldDef>,
+    pub alts: Vec<AltDef>,
+    pub contigs: Vec<ContigDef>,
+    pub others: Vec<OtherDef>,
+    pub samples: Vec<String>,
+}
+
+/// Floats are carried as bit patterns so that NaN payloads serialise and compare exactly.
+pub type F32Bits = u32;
+
+#[derive(Clone, Debug, PartialEq, Eq, Serialize, Deserialize)]
+pub enum InfoValue {
+    Flag,
+    Integer(i32),
+    Float(F32Bits),
+    Character(char),
+    String(String),
+    IntArray(Vec<Option<i32>>),
+    FloatArray(Vec<Option<F32Bits>>),
+    CharArray(Vec<Option<char>>),
+    StrArray(Vec<Option<String>>),
+}
+
+/// One GT allele: (allele index or missing, phased-with-previous).
+pub type Allele = (Option<u32>, bool);
+
+#[derive(Clone, Debug, PartialEq, Eq, Serialize, Deserialize)]
+pub enum SampleValue {
+    Integer(i32),
+    Float(F32Bits),
+    Character(char),
+    String(String),
+    Genotype(Vec<Allele>),
+    IntArray(Vec<Option<i32>>),
+    FloatArray(Vec<Option<F32Bits>>),
+    CharArray(Vec<Option<char>>),
+    StrArray(Vec<Option<String>>),
+}
+
+#[derive(Clone, Debug, PartialEq, Eq, Serialize, Deserialize)]
+pub struct VarRecord {
+    pub chrom: String,
+    /// 0 = telomere (`None` in noodles)
+    pub pos: u32,
+    pub ids: Vec<String>,
+    pub reference: String,
+    pub alts: Vec<String>,
+    pub qual: Option<F32Bits>,
+    /// empty = missing; `["PASS"]`; or one or more filter ids
+    pub filters: Vec<String>,
+    pub info: Vec<(String, Option<InfoValue>)>,
+    pub format: Vec<String>,
+    /// one row per sample; a row may be shorter than `format` (trailing fields dropped)
+    pub samples: Vec<Vec<Option<SampleValue>>>,
+}
+
+#[derive(Clone, Debug, PartialEq, Eq, Serialize, Deserialize)]
+pub struct VarDoc {
+    pub header: VarHeader,
+    pub records: Vec<VarRecord>,
+}
+
+pub const CANONICAL_NAN: u32 = 0x7FC0_0000;
+pub const BCF_FLOAT_MISSING: u32 = 0x7F80_0001;
+pub const BCF_FLOAT_EOV: u32 = 0x7F80_0002;
+/// smallest integer BCF can store as a value
+pub const BCF_INT_MIN: i32 = i32::MIN + 8;
+
+pub fn is_nan_bits(b: u32) -> bool {
+    f32::from_bits(b).is_nan()
+}
+
+/// 0x7F800001..=0x7F800007: missing, end-of-vector and the reserved range of BCF2.
+pub fn is_bcf_reserved_float(b: u32) -> bool {
+    (0x7F80_0001..=0x7F80_0007).contains(&b)
+}
+
+impl VarHeader {
+    pub fn file_format(&self) -> vcf::header::FileFormat {
+        vcf::header::FileFormat::new(4, self.minor)
+    }
+    pub fn info(&self, id: &str) -> Option<&FieldDef> {
+        self.infos.iter().find(|d| d.id == id)
+    }
+    pub fn format(&self, id: &str) -> Option<&FieldDef> {
+        self.formats.iter().find(|d| d.id == id)
+    }
+    pub fn contig_index(&self, id: &str) -> Option<usize> {
+        self.contigs.iter().position(|c| c.id == id)
+    }
+    /// (number, type) that governs how an INFO key parses: header entry, else the reserved
+    /// definition of the file format (4.3+), else None (untyped: String / Flag).
+    pub fn info_typing(&self, id: &str) -> Option<(Num, Ty)> {
+        self.info(id).map(|d| (d.number, d.ty)).or_else(|| reserved_info_def(self.minor, id))
+    }
+    pub fn format_typing(&self, id: &str) -> Option<(Num, Ty)> {
+        self.format(id).map(|d| (d.number, d.ty)).or_else(|| reserved_format_def(self.minor, id))
+    }
+}
+
+// ------------------------------------------------------------------------------------------------
+// reserved definitions (taken from noodles' own tables through its public `From` impls: they
+// define what the header parser accepts for these ids, so they are domain, not oracle)
+// ------------------------------------------------------------------------------------------------
+
+fn num_from_info(n: vcf::header::record::value::map::info::Number) -> Num {
+    use vcf::header::record::value::map::info::Number as N;
+    match n {
+        N::Count(k) => Num::Count(k as u32),
+        N::AlternateBases => Num::A,
+        N::ReferenceAlternateBases => Num::R,
+        N::Samples => Num::G,
+        N::Unknown => Num::Unknown,
+    }
+}
+
+fn num_to_info(n: Num) -> Option<vcf::header::record::value::map::info::Number> {
+    use vcf::header::record::value::map::info::Number as N;
+    Some(match n {
+        Num::Count(k) => N::Count(k as usize),
+        Num::A => N::AlternateBases,
+        Num::R => N::ReferenceAlternateBases,
+        Num::G => N::Samples,
+        Num::Unknown => N::Unknown,
+        _ => return None,
+    })
+}
+
+fn num_from_format(n: vcf::header::record::value::map::format::Number) -> Num {
+    use vcf::header::record::value::map::format::Number as N;
+    match n {
+        N::Count(k) => Num::Count(k as u32),
+        N::AlternateBases => Num::A,
+        N::ReferenceAlternateBases => Num::R,
+        N::Samples => Num::G,
+        N::Unknown => Num::Unknown,
+        N::LocalAlternateBases => Num::LA,
+        N::LocalReferenceAlternateBases => Num::LR,
+        N::LocalSamples => Num::LG,
+        N::Ploidy => Num::P,
+        N::BaseModifications => Num::M,
+    }
+}
+
+fn num_to_format(n: Num) -> vcf::header::record::value::map::format::Number {
+    use vcf::header::record::value::map::format::Number as N;
+    match n {
+        Num::Count(k) => N::Count(k as usize),
+        Num::A => N::AlternateBases,
+        Num::R => N::ReferenceAlternateBases,
+        Num::G => N::Samples,
+        Num::Unknown => N::Unknown,
+        Num::LA => N::LocalAlternateBases,
+        Num::LR => N::LocalReferenceAlternateBases,
+        Num::LG => N::LocalSamples,
+        Num::P => N::Ploidy,
+        Num::M => N::BaseModifications,
+    }
+}
+
+fn ty_from_info(t: vcf::header::record::value::map::info::Type) -> Ty {
+    use vcf::header::record::value::map::info::Type as T;
+    match t {
+        T::Integer => Ty::Integer,
+        T::Float => Ty::Float,
+        T::Flag => Ty::Flag,
+        T::Character => Ty::Character,
+        T::String => Ty::String,
+    }
+}
+
+fn ty_to_info(t: Ty) -> vcf::header::record::value::map::info::Type {
+    use vcf::header::record::value::map::info::Type as T;
+    match t {
+        Ty::Integer => T::Integer,
+        Ty::Float => T::Float,
+        Ty::Flag => T::Flag,
+        Ty::Character => T::Character,
+        Ty::String => T::String,
+    }
+}
+
+fn ty_from_format(t: vcf::header::record::value::map::format::Type) -> Ty {
+    use vcf::header::record::value::map::format::Type as T;
+    match t {
+        T::Integer => Ty::Integer,
+        T::Float => Ty::Float,
+        T::Character => Ty::Character,
+        T::String => Ty::String,
+    }
+}
+
+fn ty_to_format(t: Ty) -> Option<vcf::header::record::value::map::format::Type> {
+    use vcf::header::record::value::map::format::Type as T;
+    Some(match t {
+        Ty::Integer => T::Integer,
+        Ty::Float => T::Float,
+        Ty::Character => T::Character,
+        Ty::String => T::String,
+        Ty::Flag => return None,
+    })
+}
+
+/// Reserved INFO definition in VCFv4.<minor> (None before 4.3, where noodles has no table).
+pub fn reserved_info_def(minor: u32, id: &str) -> Option<(Num, Ty)> {
+    if minor < 3 {
+        return None;
+    }
+    reserved_info_def_any(minor, id)
+}
+
+fn reserved_info_def_any(minor: u32, id: &str) -> Option<(Num, Ty)> {
+    use vcf::header::record::value::{Map, map::Info};
+    let m = Map::<Info>::from((vcf::header::FileFormat::new(4, minor.clamp(3, 5)), id));
+    if m.description().is_empty() { None } else { Some((num_from_info(m.number()), ty_from_info(m.ty()))) }
+}
+
+pub fn reserved_format_def(minor: u32, id: &str) -> Option<(Num, Ty)> {
+    if minor < 3 {
+        return None;
+    }
+    reserved_format_def_any(minor, id)
+}
+
+fn reserved_format_def_any(minor: u32, id: &str) -> Option<(Num, Ty)> {
+    use vcf::header::record::value::{Map, map::Format};
+    let m = Map::<Format>::from((vcf::header::FileFormat::new(4, minor.clamp(3, 5)), id));
+    if m.description().is_empty() { None } else { Some((num_from_format(m.number()), ty_from_format(m.ty()))) }
+}
+
+pub const RESERVED_INFO_IDS: [&str; 20] =
+    ["END", "SVLEN", "DP", "AF", "AC", "AN", "DB", "SVTYPE", "CIPOS", "AA", "H2", "NS", "SB", "MQ", "1000G", "IMPRECISE", "CIGAR", "MATEID", "EVENT", "BQ"];
+pub const RESERVED_FORMAT_IDS: [&str; 13] = ["GT", "DP", "GQ", "AD", "PL", "GL", "FT", "HQ", "PS", "LEN", "MQ", "EC", "GP"];
+
+// ------------------------------------------------------------------------------------------------
+// 2. conversions
+// ------------------------------------------------------------------------------------------------
+
+fn e2s<E: std::fmt::Display>(what: &str) -> impl Fn(E) -> String + '_ {
+    move |e| format!("{what}: {e}")
+}
+
+impl VarHeader {
+    /// Build the noodles header through its public builders. `Err` only for models outside the
+    /// builder's domain (never for generated headers).
+    pub fn to_noodles(&self) -> Result<vcf::Header, String> {
+        use vcf::header::record::value::{
+            Map,
+            map::{AlternativeAllele, Contig, Filter, Format, Info, Other},
+        };
+        let mut b = vcf::Header::builder().set_file_format(self.file_format());
+        for d in &self.infos {
+            let number = num_to_info(d.number).ok_or_else(|| format!("INFO {} has a FORMAT-only Number", d.id))?;
+            let mut m = Map::<Info>::new(number, ty_to_info(d.ty), d.description.clone());
+            *m.idx_mut() = d.idx.map(|i| i as usize);
+            for (k, v) in &d.extra {
+                m.other_fields_mut().insert(k.parse().map_err(e2s("INFO extra tag"))?, v.clone());
+            }
+            b = b.add_info(d.id.clone(), m);
+        }
+        for d in &self.filters {
+            let mut m = Map::<Filter>::new(d.description.clone());
+            *m.idx_mut() = d.idx.map(|i| i as usize);
+            for (k, v) in &d.extra {
+                m.other_fields_mut().insert(k.parse().map_err(e2s("FILTER extra tag"))?, v.clone());
+            }
+            b = b.add_filter(d.id.clone(), m);
+        }
+        for d in &self.formats {
+            let ty = ty_to_format(d.ty).ok_or_else(|| format!("FORMAT {} is a Flag", d.id))?;
+            let mut m = Map::<Format>::new(num_to_format(d.number), ty, d.description.clone());
+            *m.idx_mut() = d.idx.map(|i| i as usize);
+            for (k, v) in &d.extra {
+                m.other_fields_mut().insert(k.parse().map_err(e2s("FORMAT extra tag"))?, v.clone());
+            }
+            b = b.add_format(d.id.clone(), m);
+        }
+        for d in &self.alts {
+            let mut m = Map::<AlternativeAllele>::new(d.description.clone());
+            for (k, v) in &d.extra {
+                m.other_fields_mut().insert(k.parse().map_err(e2s("ALT extra tag"))?, v.clone());
+            }
+            b = b.add_alternative_allele(d.id.clone(), m);
+        }
+        for d in &self.contigs {
+            let mut m = Map::<Contig>::new();
+            *m.length_mut() = d.length.map(|l| l as usize);
+            *m.md5_mut() = d.md5.clone();
+            *m.url_mut() = d.url.clone();
+            *m.idx_mut() = d.idx.map(|i| i as usize);
+            for (k, v) in &d.extra {
+                m.other_fields_mut().insert(k.parse().map_err(e2s("contig extra tag"))?, v.clone());
+            }
+            b = b.add_contig(d.id.clone(), m);
+        }
+        for o in &self.others {
+            let key: vcf::header::record::key::Other = o.key.parse().map_err(e2s("other record key"))?;
+            let value = match &o.value {
+                OtherValue::Text(s) => vcf::header::record::Value::String(s.clone()),
+                OtherValue::Map { id, fields } => {
+                    let mut m = Map::<Other>::new();
+                    for (k, v) in fields {
+                        m.other_fields_mut().insert(k.parse().map_err(e2s("other map tag"))?, v.clone());
+                    }
+                    vcf::header::record::Value::Map(id.clone(), m)
+                }
+            };
+            b = b.insert(key, value).map_err(e2s("other record"))?;
+        }
+        for s in &self.samples {
+            b = b.add_sample_name(s.clone());
+        }
+        Ok(b.build())
+    }
+
+    /// Model of a noodles header (string maps are not part of the model).
+    pub fn from_noodles(h: &vcf::Header) -> VarHeader {
+        use vcf::header::record::value::Collection;
+        fn extras<T: AsRef<str>>(it: impl Iterator<Item = (T, String)>) -> Vec<(String, String)> {
+            it.map(|(k, v)| (k.as_ref().to_string(), v)).collect()
+        }
+        VarHeader {
+            minor: if h.file_format().major() == 4 { h.file_format().minor() } else { 1000 + h.file_format().major() },
+            infos: h
+                .infos()
+                .iter()
+                .map(|(id, m)| FieldDef {
+                    id: id.clone(),
+                    number: num_from_info(m.number()),
+                    ty: ty_from_info(m.ty()),
+                    description: m.description().to_string(),
+                    idx: m.idx().map(|i| i as u32),
+                    extra: extras(m.other_fields().iter().map(|(k, v)| (k.clone(), v.clone()))),
+                })
+                .collect(),
+            filters: h
+                .filters()
+                .iter()
+                .map(|(id, m)| FilterDef {
+                    id: id.clone(),
+                    description: m.description().to_string(),
+                    idx: m.idx().map(|i| i as u32),
+                    extra: extras(m.other_fields().iter().map(|(k, v)| (k.clone(), v.clone()))),
+                })
+                .collect(),
+            formats: h
+                .formats()
+                .iter()
+                .map(|(id, m)| FieldDef {
+                    id: id.clone(),
+                    number: num_from_format(m.number()),
+                    ty: ty_from_format(m.ty()),
+                    description: m.description().to_string(),
+                    idx: m.idx().map(|i| i as u32),
+                    extra: extras(m.other_fields().iter().map(|(k, v)| (k.clone(), v.clone()))),
+                })
+                .collect(),
+            alts: h
+                .alternative_alleles()
+                .iter()
+                .map(|(id, m)| AltDef {
+                    id: id.clone(),
+                    description: m.description().to_string(),
+                    extra: extras(m.other_fields().iter().map(|(k, v)| (k.clone(), v.clone()))),
+                })
+                .collect(),
+            contigs: h
+                .contigs()
+                .iter()
+                .map(|(id, m)| ContigDef {
+                    id: id.clone(),
+                    length: m.length().map(|l| l as u64),
+                    md5: m.md5().map(String::from),
+                    url: m.url().map(String::from),
+                    idx: m.idx().map(|i| i as u32),
+                    extra: extras(m.other_fields().iter().map(|(k, v)| (k.clone(), v.clone()))),
+                })
+                .collect(),
+            others: h
+                .other_records()
+                .iter()
+                .flat_map(|(key, coll)| -> Vec<OtherDef> {
+                    match coll {
+                        Collection::Unstructured(vs) => vs.iter().map(|v| OtherDef { key: key.as_ref().to_string(), value: OtherValue::Text(v.clone()) }).collect(),
+                        Collection::Structured(maps) => maps
+                            .iter()
+                            .map(|(id, m)| OtherDef {
+                                key: key.as_ref().to_string(),
+                                value: OtherValue::Map { id: id.clone(), fields: extras(m.other_fields().iter().map(|(k, v)| (k.clone(), v.clone()))) },
+                            })
+                            .collect(),
+                    }
+                })
+                .collect(),
+            samples: h.sample_names().iter().cloned().collect(),
+        }
+    }
+
+    /// `others` grouped the way noodles stores them (all values of one key together, in order of
+    /// the key's first appearance) — the normal form for header comparison.
+    pub fn normalised(&self) -> VarHeader {
+        let mut h = self.clone();
+        let mut keys: Vec<String> = Vec::new();
+        for o in &self.others {
+            if !keys.contains(&o.key) {
+                keys.push(o.key.clone());
+            }
+        }
+        h.others = keys.iter().flat_map(|k| self.others.iter().filter(move |o| &o.key == k).cloned()).collect();
+        h
+    }
+}
+
+fn f(b: F32Bits) -> f32 {
+    f32::from_bits(b)
+}
+
+impl InfoValue {
+    pub fn to_noodles(&self) -> vcf::variant::record_buf::info::field::Value {
+        use vcf::variant::record_buf::info::field::{Value as V, value::Array as A};
+        match self {
+            InfoValue::Flag => V::Flag,
+            InfoValue::Integer(n) => V::Integer(*n),
+            InfoValue::Float(b) => V::Float(f(*b)),
+            InfoValue::Character(c) => V::Character(*c),
+            InfoValue::String(s) => V::String(s.clone()),
+            InfoValue::IntArray(v) => V::Array(A::Integer(v.clone())),
+            InfoValue::FloatArray(v) => V::Array(A::Float(v.iter().map(|x| x.map(f)).collect())),
+            InfoValue::CharArray(v) => V::Array(A::Character(v.clone())),
+            InfoValue::StrArray(v) => V::Array(A::String(v.clone())),
+        }
+    }
+    pub fn from_noodles(v: &vcf::variant::record_buf::info::field::Value) -> InfoValue {
+        use vcf::variant::record_buf::info::field::{Value as V, value::Array as A};
+        match v {
+            V::Flag => InfoValue::Flag,
+            V::Integer(n) => InfoValue::Integer(*n),
+            V::Float(x) => InfoValue::Float(x.to_bits()),
+            V::Character(c) => InfoValue::Character(*c),
+            V::String(s) => InfoValue::String(s.clone()),
+            V::Array(A::Integer(v)) => InfoValue::IntArray(v.clone()),
+            V::Array(A::Float(v)) => InfoValue::FloatArray(v.iter().map(|x| x.map(f32::to_bits)).collect()),
+            V::Array(A::Character(v)) => InfoValue::CharArray(v.clone()),
+            V::Array(A::String(v)) => InfoValue::StrArray(v.clone()),
+        }
+    }
+    /// Sweep of a borrowed (lazy) value through the `variant::record` trait objects.
+    pub fn from_lazy(v: &vcf::variant::record::info::field::Value<'_>) -> Result<InfoValue, String> {
+        use vcf::variant::record::info::field::{Value as V, value::Array as A};
+        Ok(match v {
+            V::Flag => InfoValue::Flag,
+            V::Integer(n) => InfoValue::Integer(*n),
+            V::Float(x) => InfoValue::Float(x.to_bits()),
+            V::Character(c) => InfoValue::Character(*c),
+            V::String(s) => InfoValue::String(s.to_string()),
+            V::Array(A::Integer(vs)) => InfoValue::IntArray(vs.iter().collect::<Result<Vec<_>, _>>().map_err(e2s("info int array element"))?),
+            V::Array(A::Float(vs)) => {
+                InfoValue::FloatArray(vs.iter().map(|r| r.map(|o| o.map(f32::to_bits))).collect::<Result<Vec<_>, _>>().map_err(e2s("info float array element"))?)
+            }
+            V::Array(A::Character(vs)) => InfoValue::CharArray(vs.iter().collect::<Result<Vec<_>, _>>().map_err(e2s("info char array element"))?),
+            V::Array(A::String(vs)) => {
+                InfoValue::StrArray(vs.iter().map(|r| r.map(|o| o.map(|s| s.to_string()))).collect::<Result<Vec<_>, _>>().map_err(e2s("info string array element"))?)
+            }
+        })
+    }
+}
+
+impl SampleValue {
+    pub fn to_noodles(&self) -> vcf::variant::record_buf::samples::sample::Value {
+        use vcf::variant::record::samples::series::value::genotype::Phasing;
+        use vcf::variant::record_buf::samples::sample::{
+            Value as V,
+            value::{Array as A, Genotype, genotype::Allele as NA},
+        };
+        match self {
+            SampleValue::Integer(n) => V::Integer(*n),
+            SampleValue::Float(b) => V::Float(f(*b)),
+            SampleValue::Character(c) => V::Character(*c),
+            SampleValue::String(s) => V::String(s.clone()),
+            SampleValue::Genotype(al) => V::Genotype(
+                al.iter().map(|(p, ph)| NA::new(p.map(|x| x as usize), if *ph { Phasing::Phased } else { Phasing::Unphased })).collect::<Genotype>(),
+            ),
+            SampleValue::IntArray(v) => V::Array(A::Integer(v.clone())),
+            SampleValue::FloatArray(v) => V::Array(A::Float(v.iter().map(|x| x.map(f)).collect())),
+            SampleValue::CharArray(v) => V::Array(A::Character(v.clone())),
+            SampleValue::StrArray(v) => V::Array(A::String(v.clone())),
+        }
+    }
+    pub fn from_noodles(v: &vcf::variant::record_buf::samples::sample::Value) -> SampleValue {
+        use vcf::variant::record::samples::series::value::genotype::Phasing;
+        use vcf::variant::record_buf::samples::sample::{Value as V, value::Array as A};
+        match v {
+            V::Integer(n) => SampleValue::Integer(*n),
+            V::Float(x) => SampleValue::Float(x.to_bits()),
+            V::Character(c) => SampleValue::Character(*c),
+            V::String(s) => SampleValue::String(s.clone()),
+            V::Genotype(g) => SampleValue::Genotype(g.as_ref().iter().map(|a| (a.position().map(|p| p.min(u32::MAX as usize) as u32), a.phasing() == Phasing::Phased)).collect()),
+            V::Array(A::Integer(v)) => SampleValue::IntArray(v.clone()),
+            V::Array(A::Float(v)) => SampleValue::FloatArray(v.iter().map(|x| x.map(f32::to_bits)).collect()),
+            V::Array(A::Character(v)) => SampleValue::CharArray(v.clone()),
+            V::Array(A::String(v)) => SampleValue::StrArray(v.clone()),
+        }
+    }
+    pub fn from_lazy(v: &vcf::variant::record::samples::series::Value<'_>) -> Result<SampleValue, String> {
+        use vcf::variant::record::samples::series::{Value as V, value::Array as A, value::genotype::Phasing};
+        Ok(match v {
+            V::Integer(n) => SampleValue::Integer(*n),
+            V::Float(x) => SampleValue::Float(x.to_bits()),
+            V::Character(c) => SampleValue::Character(*c),
+            V::String(s) => SampleValue::String(s.to_string()),
+            V::Genotype(g) => SampleValue::Genotype(
+                g.iter()
+                    .map(|r| r.map(|(p, ph)| (p.map(|x| x.min(u32::MAX as usize) as u32), ph == Phasing::Phased)))
+                    .collect::<Result<Vec<_>, _>>()
+                    .map_err(e2s("genotype allele"))?,
+            ),
+            V::Array(A::Integer(vs)) => SampleValue::IntArray(vs.iter().collect::<Result<Vec<_>, _>>().map_err(e2s("sample int array element"))?),
+            V::Array(A::Float(vs)) => {
+                SampleValue::FloatArray(vs.iter().map(|r| r.map(|o| o.map(f32::to_bits))).collect::<Result<Vec<_>, _>>().map_err(e2s("sample float array element"))?)
+            }
+            V::Array(A::Character(vs)) => SampleValue::CharArray(vs.iter().collect::<Result<Vec<_>, _>>().map_err(e2s("sample char array element"))?),
+            V::Array(A::String(vs)) => {
+                SampleValue::StrArray(vs.iter().map(|r| r.map(|o| o.map(|s| s.to_string()))).collect::<Result<Vec<_>, _>>().map_err(e2s("sample string array element"))?)
+            }
+        })
+    }
+}
+
+impl VarRecord {
+    pub fn to_noodles(&self) -> vcf::variant::RecordBuf {
+        use vcf::variant::record_buf::{AlternateBases, Samples};
+        let mut r = vcf::variant::RecordBuf::default();
+        *r.reference_sequence_name_mut() = self.chrom.clone();
+        *r.variant_start_mut() = Position::new(self.pos as usize);
+        *r.ids_mut() = self.ids.iter().cloned().collect();
+        *r.reference_bases_mut() = self.reference.clone();
+        *r.alternate_bases_mut() = AlternateBases::from(self.alts.clone());
+        *r.quality_score_mut() = self.qual.map(f);
+        *r.filters_mut() = self.filters.iter().cloned().collect();
+        *r.info_mut() = self.info.iter().map(|(k, v)| (k.clone(), v.as_ref().map(|v| v.to_noodles()))).collect();
+        *r.samples_mut() = Samples::new(
+            self.format.iter().cloned().collect(),
+            self.samples.iter().map(|row| row.iter().map(|v| v.as_ref().map(|v| v.to_noodles())).collect()).collect(),
+        );
+        r
+    }
+
+    pub fn from_record_buf(r: &vcf::variant::RecordBuf) -> VarRecord {
+        VarRecord {
+            chrom: r.reference_sequence_name().to_string(),
+            pos: r.variant_start().map(|p| usize::from(p).min(u32::MAX as usize) as u32).unwrap_or(0),
+            ids: r.ids().as_ref().iter().cloned().collect(),
+            reference: r.reference_bases().to_string(),
+            alts: r.alternate_bases().as_ref().to_vec(),
+            qual: r.quality_score().map(f32::to_bits),
+            filters: r.filters().as_ref().iter().cloned().collect(),
+            info: r.info().as_ref().iter().map(|(k, v)| (k.clone(), v.as_ref().map(InfoValue::from_noodles))).collect(),
+            format: r.samples().keys().as_ref().iter().cloned().collect(),
+            samples: r.samples().values().map(|s| s.values().iter().map(|v| v.as_ref().map(SampleValue::from_noodles)).collect()).collect(),
+        }
+    }
+
+    /// Touch every accessor of any `variant::Record` (lazy `vcf::Record`, `bcf::Record`, or a
+    /// `RecordBuf`) through the trait and build the model from what they return.
+    pub fn from_variant_record(header: &vcf::Header, r: &dyn vcf::variant::Record) -> Result<VarRecord, String> {
+        let chrom = r.reference_sequence_name(header).map_err(e2s("reference_sequence_name"))?.to_string();
+        let pos = match r.variant_start() {
+            None => 0,
+            Some(p) => usize::from(p.map_err(e2s("variant_start"))?).min(u32::MAX as usize) as u32,
+        };
+        let ids_acc = r.ids();
+        let ids: Vec<String> = ids_acc.iter().map(String::from).collect();
+        if ids_acc.len() != ids.len() || ids_acc.is_empty() != ids.is_empty() {
+            return Err(format!("ids: len()={} is_empty()={} but iter() yields {}", ids_acc.len(), ids_acc.is_empty(), ids.len()));
+        }
+        let ref_acc = r.reference_bases();
+        let ref_bytes = ref_acc.iter().collect::<Result<Vec<u8>, _>>().map_err(e2s("reference_bases"))?;
+        if ref_acc.len() != ref_bytes.len() || ref_acc.is_empty() != ref_bytes.is_empty() {
+            return Err(format!("reference_bases: len()={} but iter() yields {}", ref_acc.len(), ref_bytes.len()));
+        }
+        let reference = String::from_utf8(ref_bytes).map_err(e2s("reference_bases utf8"))?;
+        let alt_acc = r.alternate_bases();
+        let alts = alt_acc.iter().map(|x| x.map(String::from)).collect::<Result<Vec<_>, _>>().map_err(e2s("alternate_bases"))?;
+        if alt_acc.len() != alts.len() || alt_acc.is_empty() != alts.is_empty() {
+            return Err(format!("alternate_bases: len()={} is_empty()={} but iter() yields {}", alt_acc.len(), alt_acc.is_empty(), alts.len()));
+        }
+        let qual = match r.quality_score() {
+            None => None,
+            Some(q) => Some(q.map_err(e2s("quality_score"))?.to_bits()),
+        };
+        let fil_acc = r.filters();
+        let filters = fil_acc.iter(header).map(|x| x.map(String::from)).collect::<Result<Vec<_>, _>>().map_err(e2s("filters"))?;
+        if fil_acc.len() != filters.len() || fil_acc.is_empty() != filters.is_empty() {
+            return Err(format!("filters: len()={} is_empty()={} but iter() yields {}", fil_acc.len(), fil_acc.is_empty(), filters.len()));
+        }
+        let info_acc = r.info();
+        let mut info = Vec::new();
+        for item in info_acc.iter(header) {
+            let (k, v) = item.map_err(e2s("info field"))?;
+            let v = match v {
+                None => None,
+                Some(v) => Some(InfoValue::from_lazy(&v).map_err(|e| format!("info {k}: {e}"))?),
+            };
+            info.push((k.to_string(), v));
+        }
+        if info_acc.len() != info.len() || info_acc.is_empty() != info.is_empty() {
+            return Err(format!("info: len()={} is_empty()={} but iter() yields {}", info_acc.len(), info_acc.is_empty(), info.len()));
+        }
+        let s_acc = r.samples().map_err(e2s("samples"))?;
+        let format = s_acc.column_names(header).map(|x| x.map(String::from)).collect::<Result<Vec<_>, _>>().map_err(e2s("samples column_names"))?;
+        let mut samples = Vec::new();
+        for (si, sample) in s_acc.iter().enumerate() {
+            let mut row = Vec::new();
+            for item in sample.iter(header) {
+                let (k, v) = item.map_err(|e| format!("sample {si} value: {e}"))?;
+                if format.get(row.len()).map(|s| s.as_str()) != Some(k) {
+                    return Err(format!("sample {si}: value {} is reported under key {k:?}, column names are {format:?}", row.len()));
+                }
+                let v = match v {
+                    None => None,
+                    Some(v) => Some(SampleValue::from_lazy(&v).map_err(|e| format!("sample {si} key {k}: {e}"))?),
+                };
+                row.push(v);
+            }
+            samples.push(row);
+        }
+        if s_acc.len() != samples.len() {
+            return Err(format!("samples: len()={} but iter() yields {}", s_acc.len(), samples.len()));
+        }
+        Ok(VarRecord { chrom, pos, ids, reference, alts, qual, filters, info, format, samples })
+    }
+}
+
+// ------------------------------------------------------------------------------------------------
+// 3. normal forms, comparison, canonical text
+// ------------------------------------------------------------------------------------------------
+
+#[derive(Clone, Copy, Debug, PartialEq, Eq, Serialize, Deserialize)]
+pub enum Target {
+    VcfText,
+    Bcf,
+}
+
+/// IUPAC reduction the VCF specification prescribes for REF (§1.6.1.4: "the one that is first
+/// alphabetically"), case preserved.
+pub fn resolve_ref_base(b: char) -> char {
+    match b {
+        'W' | 'M' | 'R' | 'D' | 'H' | 'V' => 'A',
+        'S' | 'Y' | 'B' => 'C',
+        'K' => 'G',
+        'w' | 'm' | 'r' | 'd' | 'h' | 'v' => 'a',
+        's' | 'y' | 'b' => 'c',
+        'k' => 'g',
+        c => c,
+    }
+}
+
+/// The implicit phasing of the first allele (VCF ≤ 4.3, and 4.4+ when the prefix is omitted):
+/// `/` if any later separator is `/`, else `|`.
+pub fn implicit_first_phasing(alleles: &[Allele]) -> bool {
+    !alleles.iter().skip(1).any(|(_, ph)| !*ph)
+}
+
+fn norm_info_value(v: Option<InfoValue>, target: Target) -> Option<InfoValue> {
+    let nanf = |b: F32Bits| if target == Target::VcfText && is_nan_bits(b) { CANONICAL_NAN } else { b };
+    match v {
+        // a one-element array holding a missing value has no representation distinct from a
+        // missing field in either format
+        Some(InfoValue::IntArray(a)) if a.len() == 1 && a[0].is_none() => None,
+        Some(InfoValue::FloatArray(a)) if a.len() == 1 && a[0].is_none() => None,
+        Some(InfoValue::CharArray(a)) if a.len() == 1 && a[0].is_none() => None,
+        Some(InfoValue::StrArray(a)) if a.len() == 1 && a[0].is_none() => None,
+        Some(InfoValue::Float(b)) => Some(InfoValue::Float(nanf(b))),
+        Some(InfoValue::FloatArray(a)) => Some(InfoValue::FloatArray(a.into_iter().map(|x| x.map(nanf)).collect())),
+        v => v,
+    }
+}
+
+fn norm_sample_value(v: Option<SampleValue>, target: Target, minor: u32) -> Option<SampleValue> {
+    let nanf = |b: F32Bits| if target == Target::VcfText && is_nan_bits(b) { CANONICAL_NAN } else { b };
+    match v {
+        Some(SampleValue::IntArray(a)) if a.len() == 1 && a[0].is_none() => None,
+        Some(SampleValue::FloatArray(a)) if a.len() == 1 && a[0].is_none() => None,
+        Some(SampleValue::CharArray(a)) if a.len() == 1 && a[0].is_none() => None,
+        Some(SampleValue::StrArray(a)) if a.len() == 1 && a[0].is_none() => None,
+        Some(SampleValue::Float(b)) => Some(SampleValue::Float(nanf(b))),
+        Some(SampleValue::FloatArray(a)) => Some(SampleValue::FloatArray(a.into_iter().map(|x| x.map(nanf)).collect())),
+        Some(SampleValue::Genotype(mut al)) => {
+            if minor < 4 && !al.is_empty() {
+                al[0].1 = implicit_first_phasing(&al);
+            }
+            if target == Target::VcfText && minor < 4 && al.len() == 1 && al[0].0.is_none() {
+                // written as `.`, which is the missing value
+                return None;
+            }
+            Some(SampleValue::Genotype(al))
+        }
+        v => v,
+    }
+}
+
+impl VarRecord {
+    /// Normal form under which "read back = written" is asserted.
+    ///  * both targets: `[.]` (one-element array of a missing value) ≡ missing; for fileformat
+    ///    < 4.4 the first allele's phasing is the implicit one;
+    ///  * VCF text: every NaN is "NaN" (payload and sign are not representable); REF IUPAC codes
+    ///    are reduced as the specification prescribes for writers;
+    ///  * BCF: a sample row shorter than FORMAT (trailing fields dropped) ≡ padded with missing.
+    pub fn normalised(&self, target: Target, header: &VarHeader) -> VarRecord {
+        let mut r = self.clone();
+        if target == Target::VcfText {
+            r.reference = r.reference.chars().map(resolve_ref_base).collect();
+            r.qual = r.qual.map(|b| if is_nan_bits(b) { CANONICAL_NAN } else { b });
+        }
+        r.info = r.info.into_iter().map(|(k, v)| (k, norm_info_value(v, target))).collect();
+        let nkeys = r.format.len();
+        r.samples = r
+            .samples
+            .into_iter()
+            .map(|row| {
+                let mut row: Vec<_> = row.into_iter().map(|v| norm_sample_value(v, target, header.minor)).collect();
+                if target == Target::Bcf {
+                    while row.len() < nkeys {
+                        row.push(None);
+                    }
+                } else if row.len() == 1 && row[0].is_none() {
+                    // a sample column `.` is both "one missing value" and "all fields dropped"
+                    row.clear();
+                }
+                row
+            })
+            .collect();
+        r
+    }
+
+    /// Name of the first differing field and a short description, or None when equal.
+    /// (Long values are shown around the first differing character of their Debug text.)
+    pub fn first_diff(&self, other: &VarRecord) -> Option<(&'static str, String)> {
+        fn d<T: std::fmt::Debug + PartialEq>(name: &'static str, a: &T, b: &T) -> Option<(&'static str, String)> {
+            if a == b { None } else { Some((name, format!("{name}: left={} right={}", crate::engine::trunc(&format!("{a:?}"), 300), crate::engine::trunc(&format!("{b:?}"), 300)))) }
+        }
+        d("chrom", &self.chrom, &other.chrom)
+            .or_else(|| d("pos", &self.pos, &other.pos))
+            .or_else(|| d("ids", &self.ids, &other.ids))
+            .or_else(|| d("ref", &self.reference, &other.reference))
+            .or_else(|| d("alt", &self.alts, &other.alts))
+            .or_else(|| d("qual", &self.qual.map(|b| format!("{b:#010x}")), &other.qual.map(|b| format!("{b:#010x}"))))
+            .or_else(|| d("filters", &self.filters, &other.filters))
+            .or_else(|| {
+                let ka: Vec<&String> = self.info.iter().map(|(k, _)| k).collect();
+                let kb: Vec<&String> = other.info.iter().map(|(k, _)| k).collect();
+                d("info-keys", &ka, &kb)
+            })
+            .or_else(|| self.info.iter().zip(&other.info).find_map(|(a, b)| if a == b { None } else { Some(("info-value", format!("INFO {}: {}", a.0, diff_window(&a.1, &b.1)))) }))
+            .or_else(|| d("format-keys", &self.format, &other.format))
+            .or_else(|| d("sample-count", &self.samples.len(), &other.samples.len()))
+            .or_else(|| {
+                for (si, (ra, rb)) in self.samples.iter().zip(&other.samples).enumerate() {
+                    if ra.len() != rb.len() {
+                        return Some(("sample-row-len", format!("sample {si}: {} values vs {}: left={:?} right={:?}", ra.len(), rb.len(), ra, rb)));
+                    }
+                    for (ki, (a, b)) in ra.iter().zip(rb).enumerate() {
+                        if a != b {
+                            let key = self.format.get(ki).cloned().unwrap_or_default();
+                            let name = if key == "GT" { "sample-gt" } else { "sample-value" };
+                            return Some((name, format!("sample {si} key {key}: {}", diff_window(a, b))));
+                        }
+                    }
+                }
+                None
+            })
+    }
+}
+
+fn pct(out: &mut String, s: &str, extra: &[char]) {
+    if s == "." {
+        out.push_str("%2E");
+        return;
+    }
+    for c in s.chars() {
+        if c.is_ascii_control() || c == '%' || extra.contains(&c) {
+            out.push_str(&format!("%{:02X}", c as u32));
+        } else {
+            out.push(c);
+        }
+    }
+}
+
+fn float_text(b: F32Bits) -> String {
+    let x = f(b);
+    if x.is_nan() { if b == CANONICAL_NAN { "NaN".to_string() } else { format!("NaN[{b:#010x}]") } } else { format!("{x}") }
+}
+
+/// Harness-side rendering of a record as one VCF line (no trailing newline). Injective on the
+/// model (NaN payloads are spelled out), therefore suitable for transcripts; it is *not* claimed to
+/// be byte-identical to any writer's output.
+pub fn canonical_text(r: &VarRecord, header: &VarHeader) -> String {
+    const INFO_SET: [char; 3] = [';', '=', ','];
+    const SAMPLE_SET: [char; 2] = [':', ','];
+    fn arr<T>(out: &mut String, v: &[Option<T>], mut one: impl FnMut(&mut String, &T)) {
+        for (i, e) in v.iter().enumerate() {
+            if i > 0 {
+                out.push(',');
+            }
+            match e {
+                None => out.push('.'),
+                Some(x) => one(out, x),
+            }
+        }
+    }
+    let mut o = String::new();
+    o.push_str(&r.chrom);
+    o.push('\t');
+    o.push_str(&r.pos.to_string());
+    o.push('\t');
+    o.push_str(&if r.ids.is_empty() { ".".to_string() } else { r.ids.join(";") });
+    o.push('\t');
+    o.push_str(&r.reference);
+    o.push('\t');
+    o.push_str(&if r.alts.is_empty() { ".".to_string() } else { r.alts.join(",") });
+    o.push('\t');
+    o.push_str(&r.qual.map(float_text).unwrap_or_else(|| ".".to_string()));
+    o.push('\t');
+    o.push_str(&if r.filters.is_empty() { ".".to_string() } else { r.filters.join(";") });
+    o.push('\t');
+    if r.info.is_empty() {
+        o.push('.');
+    }
+    for (i, (k, v)) in r.info.iter().enumerate() {
+        if i > 0 {
+            o.push(';');
+        }
+        o.push_str(k);
+        match v {
+            None => o.push_str("=."),
+            Some(InfoValue::Flag) => {}
+            Some(v) => {
+                o.push('=');
+                match v {
+                    InfoValue::Flag => {}
+                    InfoValue::Integer(n) => o.push_str(&n.to_string()),
+                    InfoValue::Float(b) => o.push_str(&float_text(*b)),
+                    InfoValue::Character(c) => pct(&mut o, &c.to_string(), &INFO_SET),
+                    InfoValue::String(s) => pct(&mut o, s, &INFO_SET),
+                    InfoValue::IntArray(a) => arr(&mut o, a, |o, n| o.push_str(&n.to_string())),
+                    InfoValue::FloatArray(a) => arr(&mut o, a, |o, b| o.push_str(&float_text(*b))),
+                    InfoValue::CharArray(a) => arr(&mut o, a, |o, c| pct(o, &c.to_string(), &INFO_SET)),
+                    InfoValue::StrArray(a) => arr(&mut o, a, |o, s| pct(o, s, &INFO_SET)),
+                }
+            }
+        }
+    }
+    if !r.samples.is_empty() {
+        o.push('\t');
+        o.push_str(&if r.format.is_empty() { ".".to_string() } else { r.format.join(":") });
+        for row in &r.samples {
+            o.push('\t');
+            if row.is_empty() {
+                o.push('.');
+            }
+            for (i, v) in row.iter().enumerate() {
+                if i > 0 {
+                    o.push(':');
+                }
+                match v {
+                    None => o.push('.'),
+                    Some(SampleValue::Integer(n)) => o.push_str(&n.to_string()),
+                    Some(SampleValue::Float(b)) => o.push_str(&float_text(*b)),
+                    Some(SampleValue::Character(c)) => pct(&mut o, &c.to_string(), &SAMPLE_SET),
+                    Some(SampleValue::String(s)) => pct(&mut o, s, &SAMPLE_SET),
+                    Some(SampleValue::Genotype(al)) => {
+                        for (j, (p, ph)) in al.iter().enumerate() {
+                            if j > 0 || header.minor >= 4 {
+                                o.push(if *ph { '|' } else { '/' });
+                            }
+                            match p {
+                                None => o.push('.'),
+                                Some(n) => o.push_str(&n.to_string()),
+                            }
+                        }
+                    }
+                    Some(SampleValue::IntArray(a)) => arr(&mut o, a, |o, n| o.push_str(&n.to_string())),
+                    Some(SampleValue::FloatArray(a)) => arr(&mut o, a, |o, b| o.push_str(&float_text(*b))),
+                    Some(SampleValue::CharArray(a)) => arr(&mut o, a, |o, c| pct(o, &c.to_string(), &SAMPLE_SET)),
+                    Some(SampleValue::StrArray(a)) => arr(&mut o, a, |o, s| pct(o, s, &SAMPLE_SET)),
+                }
+            }
+        }
+    }
+    o
+}
+
+/// Debug texts of two values, cut to a window around their first difference.
+pub fn diff_window<T: std::fmt::Debug>(a: &T, b: &T) -> String {
+    let (sa, sb) = (format!("{a:?}"), format!("{b:?}"));
+    if sa.len() <= 300 && sb.len() <= 300 {
+        return format!("left={sa} right={sb}");
+    }
+    let ca: Vec<char> = sa.chars().collect();
+    let cb: Vec<char> = sb.chars().collect();
+    let p = ca.iter().zip(&cb).position(|(x, y)| x != y).unwrap_or(ca.len().min(cb.len()));
+    let from = p.saturating_sub(80);
+    let wa: String = ca[from.min(ca.len())..(p + 120).min(ca.len())].iter().collect();
+    let wb: String = cb[from.min(cb.len())..(p + 120).min(cb.len())].iter().collect();
+    format!("first difference at char {p} of the Debug text (lengths {} / {}): left=…{wa}… right=…{wb}…", ca.len(), cb.len())
+}
+
+// ------------------------------------------------------------------------------------------------
+// 5. helpers for users of the generator
+// ------------------------------------------------------------------------------------------------
+
+/// Sort by (contig index in the header, POS); records on undeclared contigs go last, by name.
+pub fn sort_records(header: &VarHeader, records: &mut [VarRecord]) {
+    records.sort_by_key(|r| (header.contig_index(&r.chrom).unwrap_or(usize::MAX), r.chrom.clone(), r.pos));
+}
+
+/// The harness's own end coordinate (1-based, inclusive) for the unambiguous cases:
+/// fileformat < 4.5: INFO END (Integer ≥ 1) if present with a value, else POS + len(REF) − 1;
+/// fileformat 4.5: only when the record has none of END / SVLEN / FORMAT LEN: POS + len(REF) − 1.
+/// POS 0 (telomere) counts as 1, which is what `variant_span` documents. `None` = not asserted.
+pub fn harness_end(r: &VarRecord, header: &VarHeader) -> Option<u64> {
+    let start = r.pos.max(1) as u64;
+    let by_ref = start + r.reference.chars().count() as u64 - 1;
+    let end_field = r.info.iter().find(|(k, _)| k == "END");
+    if header.minor < 5 {
+        match end_field {
+            Some((_, Some(InfoValue::Integer(n)))) if *n >= 1 => Some(*n as u64),
+            Some((_, Some(_))) => None,
+            _ => Some(by_ref),
+        }
+    } else {
+        let has_svlen = r.info.iter().any(|(k, _)| k == "SVLEN");
+        let has_len = r.format.iter().any(|k| k == "LEN");
+        if end_field.is_some() || has_svlen || has_len { None } else { Some(by_ref) }
+    }
+}
+
+/// Dictionary-of-strings index that BCF must use for each INFO/FILTER/FORMAT id of `header`:
+/// the IDX value when given, else the order of first appearance (PASS = 0, then INFO, FILTER,
+/// FORMAT lines in the order the header is written). Second component: contig ids.
+pub fn expected_string_indices(header: &VarHeader) -> (Vec<(String, u32)>, Vec<(String, u32)>) {
+    let mut strings: Vec<(String, u32)> = vec![("PASS".to_string(), 0)];
+    let mut next = 1u32;
+    let mut add = |id: &str, idx: Option<u32>, strings: &mut Vec<(String, u32)>| {
+        if strings.iter().any(|(s, _)| s == id) {
+            return;
+        }
+        match idx {
+            Some(i) => {
+                strings.push((id.to_string(), i));
+                next = next.max(i + 1);
+            }
+            None => {
+                strings.push((id.to_string(), next));
+                next += 1;
+            }
+        }
+    };
+    for d in &header.infos {
+        add(&d.id, d.idx, &mut strings);
+    }
+    for d in &header.filters {
+        add(&d.id, d.idx, &mut strings);
+    }
+    for d in &header.formats {
+        add(&d.id, d.idx, &mut strings);
+    }
+    let mut contigs = Vec::new();
+    let mut next = 0u32;
+    for c in &header.contigs {
+        match c.idx {
+            Some(i) => {
+                contigs.push((c.id.clone(), i));
+                next = next.max(i + 1);
+            }
+            None => {
+                contigs.push((c.id.clone(), next));
+                next += 1;
+            }
+        }
+    }
+    (strings, contigs)
+}
+
+/// True when every IDX of the header equals the index the entry would get from its order of
+/// appearance (or no IDX is present): such a header means the same with and without IDX fields.
+pub fn idx_is_natural(header: &VarHeader) -> bool {
+    let mut h = header.clone();
+    for d in h.infos.iter_mut().chain(h.formats.iter_mut()) {
+        d.idx = None;
+    }
+    for d in h.filters.iter_mut() {
+        d.idx = None;
+    }
+    for c in h.contigs.iter_mut() {
+        c.idx = None;
+    }
+    expected_string_indices(&h) == expected_string_indices(header)
+}
+
+pub fn has_idx(header: &VarHeader) -> bool {
+    header.infos.iter().chain(&header.formats).any(|d| d.idx.is_some()) || header.filters.iter().any(|d| d.idx.is_some()) || header.contigs.iter().any(|c| c.idx.is_some())
+}
+
+// ------------------------------------------------------------------------------------------------
+// 4. strategies
+// ------------------------------------------------------------------------------------------------
+
+#[derive(Clone, Copy, Debug, PartialEq, Eq, Serialize, Deserialize)]
+pub enum IdxMode {
+    /// no IDX fields
+    Never,
+    /// IDX fields equal to the order-of-appearance indices (harmless if a writer drops them)
+    Natural,
+    /// arbitrary, non-contiguous, non-monotone IDX on every dictionary entry
+    Arbitrary,
+    /// per header: 50 % Never, 15 % Natural, 35 % Arbitrary
+    Mixed,
+}
+
+#[derive(Clone, Copy, Debug, PartialEq, Eq, Serialize, Deserialize)]
+pub enum SamplesMode {
+    Any,
+    Always,
+    Never,
+}
+
+/// Value classes inside the VCF/BCF domain that the pinned noodles tree mishandles (established
+/// by the C09/C10 checks; see those modules and KNOWN_FINDINGS). They are produced only with
+/// probability `Mode::hazard_permille`/1000 per record (each class drawn independently), and
+/// never when it is 0.
+#[derive(Clone, Copy, Debug, PartialEq, Eq, PartialOrd, Ord, Serialize, Deserialize)]
+pub enum Hazard {
+    /// VCF: a Character value that needs percent-encoding (`;=%,.` INFO, `:%,.` FORMAT, controls)
+    CharReserved = 0,
+    /// VCF: a sample whose fields are all dropped (text `.`)
+    EmptySampleRow = 1,
+    /// BCF: INFO `KEY=.` (field present, value missing)
+    InfoMissingValue = 2,
+    /// BCF: GT ploidies within one record other than {max, 1}
+    GtRagged = 3,
+    /// BCF: a phased missing allele (`0|.`)
+    GtPhasedMissing = 4,
+    /// BCF: a sample whose GT is missing altogether (`.`)
+    GtMissing = 5,
+    /// BCF: a FORMAT column in which every sample is missing
+    ColumnAllMissing = 6,
+    /// BCF: a `,` inside an element of a String array
+    StrCommaInArray = 7,
+    /// BCF: a String equal to `.` as array element or FORMAT scalar; Character `.`/`,` likewise
+    DotValue = 8,
+    /// BCF: INFO Integer array of one element outside int8 (lazy reader returns a scalar)
+    InfoIntArrayLen1Wide = 9,
+    /// both: a non-ASCII Character value
+    CharNonAscii = 10,
+    /// (unused: control characters inside BCF strings round-trip on the pinned tree)
+    StrControl = 11,
+    /// BCF: `%` followed by two hex digits inside an element of a String array (the lazy reader
+    /// percent-decodes array elements, nothing else does)
+    StrArrayPercentEscape = 12,
+}
+pub const N_HAZARDS: usize = 13;
+
+#[derive(Clone, Debug)]
+pub struct Mode {
+    pub target: Target,
+    pub idx: IdxMode,
+    pub samples: SamplesMode,
+    /// minor versions to draw fileformat from (4.<minor>)
+    pub minors: Vec<u32>,
+    /// see `Hazard`
+    pub hazard_permille: u16,
+    /// POS upper bound (≤ 2^31 − 1)
+    pub max_pos: u32,
+    /// allow very long strings / arrays (typed-length boundaries 15, 128, 32768)
+    pub long_values: bool,
+    /// records per document: 0..=max_records
+    pub max_records: usize,
+    /// VCF text only: allow CHROM / FILTER / INFO / FORMAT ids that the header does not declare
+    pub undeclared: bool,
+    /// FORMAT Number codes LA/LR/LG/P/M in 4.5 headers (the text parser does not know them)
+    pub extended_numbers_permille: u16,
+    /// POS 0 (telomere) allowed (0.6 % of records). `bcf::Record::end()` is `todo!()` for it.
+    pub telomere: bool,
+}
+
+impl Mode {
+    /// Full VCF text domain of C09 (known-defect classes at 3 % each).
+    pub fn vcf_full() -> Mode {
+        Mode { target: Target::VcfText, idx: IdxMode::Never, samples: SamplesMode::Any, minors: vec![2, 3, 4, 5], hazard_permille: 30, max_pos: i32::MAX as u32, long_values: true, max_records: 10, undeclared: true, extended_numbers_permille: 0, telomere: true }
+    }
+    /// VCF documents that the pinned tree round-trips (for drivers, indexes, chunking, async …).
+    pub fn vcf_safe() -> Mode {
+        Mode { hazard_permille: 0, long_values: false, ..Mode::vcf_full() }
+    }
+    /// Full BCF domain of C10 (known-defect classes at 3 % each).
+    pub fn bcf_full() -> Mode {
+        Mode { target: Target::Bcf, idx: IdxMode::Mixed, samples: SamplesMode::Any, minors: vec![2, 3, 4, 5], hazard_permille: 30, max_pos: i32::MAX as u32, long_values: true, max_records: 10, undeclared: false, extended_numbers_permille: 0, telomere: true }
+    }
+    /// BCF documents that the pinned tree round-trips (contigs declared, no IDX, no hazards).
+    pub fn bcf_safe() -> Mode {
+        Mode { idx: IdxMode::Never, hazard_permille: 0, long_values: false, telomere: false, ..Mode::bcf_full() }
+    }
+}
+
+// ---- atoms -------------------------------------------------------------------------------------
+
+const BOUNDARY_INTS: [i32; 40] = [
+    0, 1, -1, 2, 100, -119, -120, -121, -122, -127, -128, -129, 126, 127, 128, 129, 255, 256, -32759, -32760, -32761, -32762, -32767, -32768, -32769, 32766, 32767, 32768, 32769, 65535, 65536,
+    i32::MAX, i32::MAX - 1, i32::MIN + 8, i32::MIN + 9, 1 << 24, -(1 << 24), 1000, -1000, 70000,
+];
+
+/// Integers BCF can represent: [-2^31+8, 2^31-1], dense at the width boundaries.
+pub fn int_valid() -> BoxedStrategy<i32> {
+    prop_oneof![
+        4 => -10i32..100,
+        5 => proptest::sample::select(BOUNDARY_INTS.to_vec()),
+        1 => BCF_INT_MIN..=i32::MAX,
+        1 => -40000i32..40000,
+    ]
+    .boxed()
+}
+
+/// The eight integers BCF (and therefore VCF) cannot carry: [i32::MIN, i32::MIN+7].
+pub fn int_reserved() -> BoxedStrategy<i32> {
+    (0i32..8).prop_map(|k| i32::MIN + k).boxed()
+}
+
+const SPECIAL_FLOAT_BITS: [u32; 22] = [
+    0x0000_0000, 0x8000_0000, 0x3F80_0000, 0xBF80_0000, 0x7F7F_FFFF, 0xFF7F_FFFF, 0x0080_0000, 0x0000_0001, 0x807F_FFFF, 0x7F80_0000, 0xFF80_0000, // ±0 ±1 ±max min-normal subnormals ±inf
+    0x7FC0_0000, // canonical NaN
+    0x7FC0_0001, 0xFFC0_0000, 0x7FA0_0000, 0x7F80_0008, 0x7FFF_FFFF, 0xFF80_0001, 0xFF80_0002, // other NaNs (not reserved)
+    0x3DCC_CCCD, 0x4B80_0000, 0x501502F9, // 0.1, 2^24, 1e10
+];
+
+/// Float bit patterns. `text`: only what VCF text can carry distinctly (finite, ±inf, NaN as a
+/// class — other NaN payloads appear rarely and are compared as NaN). Never a BCF sentinel or
+/// reserved pattern.
+pub fn float_bits(text: bool) -> BoxedStrategy<u32> {
+    let fin = prop_oneof![
+        3 => (-2000i32..20000, 0u32..4).prop_map(|(n, s)| (n as f32 / [1.0f32, 4.0, 10.0, 1000.0][s as usize]).to_bits()),
+        1 => any::<u32>().prop_map(|b| if f32::from_bits(b).is_finite() { b } else { b & 0x7F7F_FFFF }),
+    ];
+    if text {
+        prop_oneof![
+            8 => fin,
+            3 => proptest::sample::select(SPECIAL_FLOAT_BITS[..12].to_vec()),
+            1 => proptest::sample::select(SPECIAL_FLOAT_BITS[12..].to_vec()).prop_map(|b| if is_bcf_reserved_float(b) { CANONICAL_NAN } else { b }),
+        ]
+        .boxed()
+    } else {
+        prop_oneof![
+            6 => fin,
+            4 => proptest::sample::select(SPECIAL_FLOAT_BITS.to_vec()),
+            1 => any::<u32>().prop_map(|b| if is_bcf_reserved_float(b) { CANONICAL_NAN } else { b }),
+        ]
+        .boxed()
+    }
+}
+
+/// 0x7F800001 (missing), 0x7F800002 (end of vector), 0x7F800003..7 (reserved).
+pub fn float_reserved_bits() -> BoxedStrategy<u32> {
+    (1u32..8).prop_map(|k| 0x7F80_0000 + k).boxed()
+}
+
+const STR_TOKENS: [&str; 64] = [
+    "a", "b", "Z", "0", "7", "x1", "foo", "ACGT", "rs", "q", "T", "9", "e", "N", "k", "m", // plain
+    " ", "_", "-", "+", "/", "|", "\\", "\"", "'", "(", ")", "<", ">", "[", "]", "~", "!", "#", "@", "&", "*", "?", "^", "{", "}", "$", // printable punctuation
+    "%", "%41", "%3a", "%3B", "%2", "%zz", "%%", "%2C", // percent forms
+    ":", ";", "=", ",", ".", "..", // VCF delimiters
+    "é", "日", "ß", "𝄞", // non-ASCII
+    "\t", "\n", "\r", "\u{1}", // controls
+];
+
+/// Non-empty strings over a token alphabet rich in VCF delimiters, percent forms, non-ASCII and
+/// control characters; lengths dense at the BCF typed-length boundaries when `long`.
+pub fn rich_string(long: bool) -> BoxedStrategy<String> {
+    let tok = prop_oneof![
+        10 => 0usize..16,
+        3 => 16usize..42,
+        3 => 42usize..50,
+        3 => 50usize..56,
+        1 => 56usize..60,
+        1 => 60usize..64,
+    ];
+    let short = proptest::collection::vec(tok, 1..6).prop_map(|v| v.into_iter().map(|i| STR_TOKENS[i]).collect::<String>());
+    if long {
+        prop_oneof![
+            30 => short,
+            3 => (proptest::sample::select(vec![13usize, 14, 15, 16, 17, 126, 127, 128, 129, 255, 256, 300]), any::<u16>()).prop_map(|(n, s)| filler(n, s)),
+            1 => (proptest::sample::select(vec![32766usize, 32767, 32768, 32769, 66000]), any::<u16>()).prop_map(|(n, s)| filler(n, s)),
+        ]
+        .boxed()
+    } else {
+        short.boxed()
+    }
+}
+
+fn filler(n: usize, seed: u16) -> String {
+    const AL: &[u8] = b"abcdefghijklmnopqrstuvwxyzACGT0123456789_-";
+    (0..n).map(|i| AL[(i * 7 + seed as usize + i / 11) % AL.len()] as char).collect()
+}
+
+fn any_char() -> BoxedStrategy<char> {
+    prop_oneof![
+        10 => proptest::sample::select("ACGTNacgtxyzQ0123456789".chars().collect::<Vec<_>>()),
+        4 => proptest::sample::select("!\"#$&'()*+-/<>?@[\\]^_`{|}~ ".chars().collect::<Vec<_>>()),
+        3 => proptest::sample::select(";=%,.:".chars().collect::<Vec<_>>()),
+        1 => proptest::sample::select(vec!['\t', '\n', '\r', '\u{1}', '\u{7f}']),
+        1 => proptest::sample::select(vec!['é', '日', 'ß', '𝄞']),
+    ]
+    .boxed()
+}
+
+fn word(first: &'static str, rest: &'static str, max_rest: usize) -> BoxedStrategy<String> {
+    let f: Vec<char> = first.chars().collect();
+    let r: Vec<char> = rest.chars().collect();
+    (proptest::sample::select(f), proptest::collection::vec(proptest::sample::select(r), 0..=max_rest)).prop_map(|(a, b)| std::iter::once(a).chain(b).collect()).boxed()
+}
+
+const ALNUM: &str = "abcdefghijklmnopqrstuvwxyzABCDEFGHIJKLMNOPQRSTUVWXYZ0123456789";
+const KEY_REST: &str = "abcdefghijklmnopqrstuvwxyzABCDEFGHIJKLMNOPQRSTUVWXYZ0123456789_.";
+/// contig name alphabet of VCF §1.4.7 (first character without `*` and `=`)
+const CONTIG_FIRST: &str = "0123456789ABCXYMchrsq!$%&+./:;?@^_|~-";
+const CONTIG_REST: &str = "0123456789ABCXYMchrsq!#$%&*+./:;=?@^_|~-";
+
+/// Header text (descriptions, extra values, unstructured values): printable, no controls; quotes,
+/// backslashes, commas, `=`, `<`, `>` and non-ASCII included.
+fn header_text(allow_empty: bool) -> BoxedStrategy<String> {
+    const TOK: [&str; 30] = ["a", "Z", "0", "depth", "of", " ", " ", ",", "=", "\"", "\\", "<", ">", ";", ":", "%", "é", "日", "'", "(", ")", "#", "##", "ID=", "\\\"", "\\\\", "/", ".", "-", "_"];
+    proptest::collection::vec(0usize..30, (if allow_empty { 0 } else { 1 })..8).prop_map(|v| v.into_iter().map(|i| TOK[i]).collect::<String>()).boxed()
+}
+
+fn extras() -> BoxedStrategy<Vec<(String, String)>> {
+    let key = prop_oneof![
+        2 => proptest::sample::select(vec!["Source", "Version", "assembly", "species", "taxonomy", "note"]).prop_map(String::from),
+        1 => word("abcdefghijkmnopqrstuvwxyz", ALNUM, 5),
+    ];
+    prop_oneof![
+        3 => Just(Vec::new()),
+        1 => proptest::collection::vec((key, header_text(true)), 1..3),
+    ]
+    .prop_map(|v| {
+        let mut seen = BTreeSet::new();
+        v.into_iter().filter(|(k, _)| !["ID", "Number", "Type", "Description", "IDX", "length", "md5", "URL", "Values"].contains(&k.as_str()) && seen.insert(k.clone())).collect()
+    })
+    .boxed()
+}
+
+// ---- header ------------------------------------------------------------------------------------
+
+#[derive(Clone, Debug)]
+struct RawField {
+    /// < 35: reserved id picked by `sel`; else the custom name
+    kind: u8,
+    sel: u16,
+    name: String,
+    num_sel: u16,
+    ty_sel: u16,
+    count: u32,
+    description: String,
+    extra: Vec<(String, String)>,
+    ext_draw: u16,
+}
+
+fn raw_field() -> BoxedStrategy<RawField> {
+    (
+        0u8..100,
+        any::<u16>(),
+        word("XZq_", KEY_REST, 6),
+        any::<u16>(),
+        any::<u16>(),
+        prop_oneof![4 => 2u32..5, 1 => proptest::sample::select(vec![14u32, 15, 16, 20])],
+        header_text(true),
+        extras(),
+        0u16..1000,
+    )
+        .prop_map(|(kind, sel, name, num_sel, ty_sel, count, description, extra, ext_draw)| RawField { kind, sel, name, num_sel, ty_sel, count, description, extra, ext_draw })
+        .boxed()
+}
+
+fn field_def(raw: &RawField, minor: u32, info: bool, mode: &Mode) -> FieldDef {
+    if raw.kind < 35 {
+        let (ids, def): (&[&str], fn(u32, &str) -> Option<(Num, Ty)>) = if info { (&RESERVED_INFO_IDS, reserved_info_def_any) } else { (&RESERVED_FORMAT_IDS, reserved_format_def_any) };
+        let id = ids[pick_idx(raw.sel, ids.len())];
+        if let Some((number, ty)) = def(minor, id) {
+            if !matches!(number, Num::LA | Num::LR | Num::LG | Num::P | Num::M) {
+                return FieldDef { id: id.to_string(), number, ty, description: raw.description.clone(), idx: None, extra: raw.extra.clone() };
+            }
+        }
+    }
+    let ty = if info { [Ty::Integer, Ty::Float, Ty::Flag, Ty::Character, Ty::String][pick_idx(raw.ty_sel, 5)] } else { [Ty::Integer, Ty::Float, Ty::Character, Ty::String][pick_idx(raw.ty_sel, 4)] };
+    let mut number = if ty == Ty::Flag { Num::Count(0) } else { [Num::Count(1), Num::Count(1), Num::Count(raw.count), Num::A, Num::R, Num::G, Num::Unknown, Num::Unknown][pick_idx(raw.num_sel, 8)] };
+    if !info && minor == 5 && raw.ext_draw < mode.extended_numbers_permille {
+        number = [Num::LA, Num::LR, Num::LG, Num::P, Num::M][pick_idx(raw.num_sel, 5)];
+    }
+    FieldDef { id: raw.name.clone(), number, ty, description: raw.description.clone(), idx: None, extra: raw.extra.clone() }
+}
+
+#[derive(Clone, Debug)]
+struct RawHeader {
+    minor: u32,
+    infos: Vec<RawField>,
+    formats: Vec<RawField>,
+    filters: Vec<(u8, String, String, Vec<(String, String)>)>,
+    alts: Vec<(u16, String, String, Vec<(String, String)>)>,
+    contigs: Vec<(u8, String, Option<u64>, Option<String>, Option<String>, Vec<(String, String)>)>,
+    others: Vec<(u8, u16, String, String, String, Vec<(String, String)>)>,
+    samples: Vec<String>,
+    share_ids: u8,
+    idx_kind: u8,
+    idx_gaps: Vec<u16>,
+    idx_perm: Vec<u16>,
+    idx_big: u8,
+}
+
+fn sample_name() -> BoxedStrategy<String> {
+    prop_oneof![
+        4 => word("NSHs", "A0123456789", 6),
+        1 => proptest::collection::vec(proptest::sample::select(vec!["s", "1", " ", ":", ";", "=", ",", ".", "é", "日", "-", "_", "/", "%41"]), 1..5).prop_map(|v| v.concat()),
+    ]
+    .boxed()
+}
+
+/// Headers over fileformat 4.<minor>: INFO/FORMAT with every Number × Type (custom ids) and
+/// reserved ids with their definitions, FILTER (incl. an explicit PASS line), ALT, contig with
+/// optional length/md5/URL, other lines (unstructured, structured, META, PEDIGREE), extra tags,
+/// IDX assignments per `mode.idx`, 0..4 samples per `mode.samples`.
+pub fn header(_tier: Tier, mode: &Mode) -> BoxedStrategy<VarHeader> {
+    let mode = mode.clone();
+    let nsamples = match mode.samples {
+        SamplesMode::Never => 0..=0usize,
+        SamplesMode::Always => 1..=4,
+        SamplesMode::Any => 0..=4,
+    };
+    let min_contigs = if mode.target == Target::Bcf { 1 } else { 0 };
+    let filters = proptest::collection::vec((0u8..100, word("qsLlowF", "abcdefghijklmnopqrstuvwxyzABCDEFGH0123456789_.+-", 6), header_text(true), extras()), 0..4);
+    let alts = proptest::collection::vec((any::<u16>(), word("ABCDEFGHIJKLMNOPQRSTUVWXYZ", "ABCDEFGHIJKLMNOPQRSTUVWXYZ:_0123456789", 8), header_text(true), extras()), 0..3);
+    let md5 = proptest::collection::vec(proptest::sample::select("0123456789abcdef".chars().collect::<Vec<_>>()), 32).prop_map(|v| v.into_iter().collect::<String>());
+    let url = word("hf", "abcdefghijklmnopqrstuvwxyz0123456789:/._-~%?&=", 20);
+    let contigs = proptest::collection::vec(
+        (
+            0u8..100,
+            word(CONTIG_FIRST, CONTIG_REST, 6),
+            proptest::option::weighted(0.6, prop_oneof![3 => 1u64..300_000_000, 1 => Just(2_147_483_647u64), 1 => 2_147_483_648u64..5_000_000_000]),
+            proptest::option::weighted(0.3, md5),
+            proptest::option::weighted(0.3, url),
+            extras(),
+        ),
+        min_contigs..5,
+    );
+    let others = proptest::collection::vec((0u8..100, any::<u16>(), word("abcdefghijklmnopqrstuvwxyzABCDEFGHIJKLMNOPQRSTUVWXYZ", "abcdefghijklmnopqrstuvwxyzABCDEFGHIJKLMNOPQRSTUVWXYZ0123456789_.", 8), header_text(false), word(ALNUM, "abcdefghijklmnopqrstuvwxyzABCDEFGHIJKLMNOPQRSTUVWXYZ0123456789_.-", 6), extras()), 0..4);
+    (
+        (proptest::sample::select(mode.minors.clone()), proptest::collection::vec(raw_field(), 0..9), proptest::collection::vec(raw_field(), 0..7), filters, alts, contigs, others),
+        (proptest::collection::vec(sample_name(), nsamples), 0u8..100, 0u8..100, proptest::collection::vec(prop_oneof![6 => 1u16..4, 1 => 100u16..140], 40), proptest::collection::vec(any::<u16>(), 40), 0u8..100),
+    )
+        .prop_map(move |((minor, infos, formats, filters, alts, contigs, others), (samples, share_ids, idx_kind, idx_gaps, idx_perm, idx_big))| {
+            finish_header(RawHeader { minor, infos, formats, filters, alts, contigs, others, samples, share_ids, idx_kind, idx_gaps, idx_perm, idx_big }, &mode)
+        })
+        .boxed()
+}
+
+fn finish_header(raw: RawHeader, mode: &Mode) -> VarHeader {
+    let minor = raw.minor;
+    let mut infos: Vec<FieldDef> = Vec::new();
+    for r in &raw.infos {
+        let d = field_def(r, minor, true, mode);
+        if !infos.iter().any(|x| x.id == d.id) {
+            infos.push(d);
+        }
+    }
+    let mut formats: Vec<FieldDef> = Vec::new();
+    for (i, r) in raw.formats.iter().enumerate() {
+        let mut d = field_def(r, minor, false, mode);
+        // occasionally reuse an INFO id for a FORMAT line (one dictionary entry in BCF); custom ids only
+        if raw.share_ids < 25 && i == 0 && r.kind >= 35 {
+            if let Some(x) = infos.iter().find(|x| x.id.starts_with(['X', 'Z', 'q', '_'])) {
+                d.id = x.id.clone();
+            }
+        }
+        if !formats.iter().any(|x| x.id == d.id) {
+            formats.push(d);
+        }
+    }
+    // genotypes are the heart of the sample columns: declare GT in about half of the headers
+    // that have samples
+    if !raw.samples.is_empty() && !formats.iter().any(|d| d.id == "GT") && (raw.share_ids as u32 * 7 + raw.idx_kind as u32) % 100 < 55 {
+        formats.insert(0, FieldDef { id: "GT".into(), number: Num::Count(1), ty: Ty::String, description: "Genotype".into(), idx: None, extra: vec![] });
+    }
+    // GT first when declared (VCF requires it first in FORMAT; the header order is free, but keeping
+    // it first makes "FORMAT = prefix of header order" valid)
+    if let Some(p) = formats.iter().position(|d| d.id == "GT") {
+        let gt = formats.remove(p);
+        formats.insert(0, gt);
+    }
+    let mut filters: Vec<FilterDef> = Vec::new();
+    for (kind, name, description, extra) in &raw.filters {
+        let id = if *kind < 15 { "PASS".to_string() } else if *kind < 22 && raw.share_ids >= 50 && !infos.is_empty() { infos[0].id.clone() } else { name.clone() };
+        if id == "." || id == "0" || filters.iter().any(|x| x.id == id) {
+            continue;
+        }
+        filters.push(FilterDef { id, description: description.clone(), idx: None, extra: extra.clone() });
+    }
+    let mut alts: Vec<AltDef> = Vec::new();
+    const STD_ALTS: [&str; 9] = ["DEL", "INS", "DUP", "INV", "CNV", "DUP:TANDEM", "DEL:ME:ALU", "NON_REF", "*"];
+    for (sel, name, description, extra) in &raw.alts {
+        let id = if sel % 3 != 0 { STD_ALTS[pick_idx(*sel, STD_ALTS.len())].to_string() } else { name.clone() };
+        if !alts.iter().any(|x| x.id == id) {
+            alts.push(AltDef { id, description: description.clone(), extra: extra.clone() });
+        }
+    }
+    let mut contigs: Vec<ContigDef> = Vec::new();
+    const STD_CONTIGS: [&str; 8] = ["1", "2", "chr1", "chrX", "sq0", "sq1", "MT", "HLA-A*01:01"];
+    for (kind, name, length, md5, url, extra) in &raw.contigs {
+        let id = if *kind < 50 { STD_CONTIGS[(*kind as usize) % STD_CONTIGS.len()].to_string() } else { name.clone() };
+        if id == "." || contigs.iter().any(|x| x.id == id) {
+            continue;
+        }
+        contigs.push(ContigDef { id, length: *length, md5: md5.clone(), url: url.clone(), idx: None, extra: extra.clone() });
+    }
+    if contigs.is_empty() && mode.target == Target::Bcf {
+        contigs.push(ContigDef { id: "sq0".into(), length: None, md5: None, url: None, idx: None, extra: vec![] });
+    }
+    let mut others: Vec<OtherDef> = Vec::new();
+    const TEXT_KEYS: [&str; 5] = ["fileDate", "source", "reference", "phasing", "commandline"];
+    const MAP_KEYS: [&str; 3] = ["SAMPLE", "assemblyInfo", "xMap"];
+    for (kind, sel, name, text, id, extra) in &raw.others {
+        let def = if *kind < 55 {
+            let key = if *kind < 30 { TEXT_KEYS[pick_idx(*sel, TEXT_KEYS.len())].to_string() } else { format!("t{name}") };
+            let mut text = text.clone();
+            if text.starts_with('<') {
+                text.insert(0, 'v');
+            }
+            OtherDef { key, value: OtherValue::Text(text) }
+        } else if *kind < 85 {
+            let key = if *kind < 75 { MAP_KEYS[pick_idx(*sel, MAP_KEYS.len())].to_string() } else { format!("M{name}") };
+            OtherDef { key, value: OtherValue::Map { id: id.clone(), fields: extra.clone() } }
+        } else if minor >= 3 && *kind < 93 {
+            let values = ["[WholeGenome, Exome]", "[a]", "[Tumor, Normal, Other]"][pick_idx(*sel, 3)];
+            OtherDef { key: "META".into(), value: OtherValue::Map { id: id.clone(), fields: vec![("Type".into(), "String".into()), ("Number".into(), ".".into()), ("Values".into(), values.into())] } }
+        } else if minor >= 3 {
+            OtherDef { key: "PEDIGREE".into(), value: OtherValue::Map { id: id.clone(), fields: vec![("Father".into(), format!("F{}", sel % 7)), ("Mother".into(), text.clone())] } }
+        } else {
+            continue;
+        };
+        let clash = ["fileformat", "INFO", "FILTER", "FORMAT", "ALT", "contig"].contains(&def.key.as_str())
+            || others.iter().any(|o| o.key == def.key && (matches!(o.value, OtherValue::Text(_)) != matches!(def.value, OtherValue::Text(_))))
+            || others.iter().any(|o| o.key == def.key && matches!((&o.value, &def.value), (OtherValue::Map { id: a, .. }, OtherValue::Map { id: b, .. }) if a == b));
+        if !clash {
+            others.push(def);
+        }
+    }
+    let mut samples: Vec<String> = Vec::new();
+    for s in &raw.samples {
+        if !samples.contains(s) {
+            samples.push(s.clone());
+        }
+    }
+    // sample columns need at least one FORMAT key; without FORMAT definitions only a VCF-text
+    // document that may use undeclared keys can carry them
+    if formats.is_empty() && !(mode.target == Target::VcfText && mode.undeclared) {
+        samples.clear();
+    }
+    let mut h = VarHeader { minor, infos, filters, formats, alts, contigs, others, samples };
+    let kind = match mode.idx {
+        IdxMode::Never => 0,
+        IdxMode::Natural => 1,
+        IdxMode::Arbitrary => 2,
+        IdxMode::Mixed => {
+            if raw.idx_kind < 50 {
+                0
+            } else if raw.idx_kind < 65 {
+                1
+            } else {
+                2
+            }
+        }
+    };
+    assign_idx(&mut h, kind, &raw.idx_gaps, &raw.idx_perm, raw.idx_big);
+    h
+}
+
+/// kind 0: none; 1: natural; 2: arbitrary (distinct, ≥ 1 for strings other than PASS, gaps,
+/// shuffled; `big` < 8 adds a jump past 32767 so that index widths int16/int32 occur).
+fn assign_idx(h: &mut VarHeader, kind: u8, gaps: &[u16], perm: &[u16], big: u8) {
+    if kind == 0 {
+        return;
+    }
+    let mut names: Vec<String> = Vec::new();
+    for id in h.infos.iter().map(|d| &d.id).chain(h.filters.iter().map(|d| &d.id)).chain(h.formats.iter().map(|d| &d.id)) {
+        if id != "PASS" && !names.contains(id) {
+            names.push(id.clone());
+        }
+    }
+    let gap = |i: usize| if kind == 1 { 1 } else { gaps.get(i % gaps.len().max(1)).copied().unwrap_or(1).max(1) as u32 };
+    let mut values: Vec<u32> = Vec::new();
+    let mut cur = 0u32;
+    for i in 0..names.len() {
+        cur += gap(i);
+        if kind == 2 && big < 8 && i == names.len() / 2 {
+            cur += 32700;
+        }
+        values.push(cur);
+    }
+    if kind == 2 {
+        let mut order: Vec<usize> = (0..values.len()).collect();
+        order.sort_by_key(|&i| (perm.get(i % perm.len().max(1)).copied().unwrap_or(0), i));
+        values = order.iter().map(|&i| values[i]).collect();
+    }
+    let lookup = |id: &str| if id == "PASS" { Some(0) } else { names.iter().position(|n| n == id).map(|p| values[p]) };
+    for d in h.infos.iter_mut().chain(h.formats.iter_mut()) {
+        d.idx = lookup(&d.id);
+    }
+    for d in h.filters.iter_mut() {
+        d.idx = lookup(&d.id);
+    }
+    let n = h.contigs.len();
+    let mut cvals: Vec<u32> = Vec::new();
+    let mut cur = 0u32;
+    for i in 0..n {
+        if i > 0 || kind == 2 {
+            cur += gap(i + 7) - if i == 0 { 1 } else { 0 };
+        }
+        cvals.push(cur);
+    }
+    if kind == 2 {
+        let mut order: Vec<usize> = (0..n).collect();
+        order.sort_by_key(|&i| (perm.get((i + 13) % perm.len().max(1)).copied().unwrap_or(0), i));
+        cvals = order.iter().map(|&i| cvals[i]).collect();
+    }
+    for (c, v) in h.contigs.iter_mut().zip(cvals) {
+        c.idx = Some(v);
+    }
+}
+
+// ---- records -----------------------------------------------------------------------------------
+
+#[derive(Clone, Debug)]
+enum PoolVals {
+    I(Vec<i32>),
+    F(Vec<u32>),
+    C(Vec<char>),
+    S(Vec<String>),
+    None,
+}
+
+#[derive(Clone, Debug)]
+struct Pool {
+    vals: PoolVals,
+    miss: Vec<u8>,
+    len_sel: u16,
+    present: u8,
+    order: u16,
+    whole_missing: u8,
+}
+
+fn pool(ty: Ty, mode: &Mode) -> BoxedStrategy<Pool> {
+    let text = mode.target == Target::VcfText;
+    let vals = match ty {
+        Ty::Integer => proptest::collection::vec(int_valid(), 1..7).prop_map(PoolVals::I).boxed(),
+        Ty::Float => proptest::collection::vec(float_bits(text), 1..7).prop_map(PoolVals::F).boxed(),
+        Ty::Character => proptest::collection::vec(any_char(), 1..7).prop_map(PoolVals::C).boxed(),
+        Ty::String => proptest::collection::vec(rich_string(mode.long_values), 1..5).prop_map(PoolVals::S).boxed(),
+        Ty::Flag => Just(PoolVals::None).boxed(),
+    };
+    (vals, proptest::collection::vec(0u8..100, 1..5), any::<u16>(), 0u8..100, any::<u16>(), 0u8..100)
+        .prop_map(|(vals, miss, len_sel, present, order, whole_missing)| Pool { vals, miss, len_sel, present, order, whole_missing })
+        .boxed()
+}
+
+#[derive(Clone, Debug)]
+enum RawAlt {
+    Bases(String),
+    Symbolic(u16),
+    Breakend(u8, String, u32),
+    Star,
+    NonRef,
+}
+
+fn bases(max: usize, long: bool) -> BoxedStrategy<String> {
+    let b = proptest::sample::select(vec!['A', 'C', 'G', 'T', 'A', 'C', 'G', 'T', 'N', 'a', 'c', 'g', 't', 'n']);
+    let short = proptest::collection::vec(b, 1..=max).prop_map(|v| v.into_iter().collect::<String>());
+    if long {
+        prop_oneof![
+            40 => short,
+            2 => proptest::sample::select(vec![14usize, 15, 16, 127, 128, 300]).prop_map(|n| "ACGTTGCAAN".chars().cycle().take(n).collect::<String>()),
+        ]
+        .boxed()
+    } else {
+        short.boxed()
+    }
+}
+
+fn raw_alt(mode: &Mode) -> BoxedStrategy<RawAlt> {
+    prop_oneof![
+        8 => bases(4, mode.long_values).prop_map(RawAlt::Bases),
+        3 => any::<u16>().prop_map(RawAlt::Symbolic),
+        2 => (0u8..6, bases(2, false), 1u32..3_000_000).prop_map(|(k, b, p)| RawAlt::Breakend(k, b, p)),
+        1 => Just(RawAlt::Star),
+        1 => Just(RawAlt::NonRef),
+    ]
+    .boxed()
+}
+
+fn position(max: u32) -> BoxedStrategy<u32> {
+    let max = max.max(1);
+    let clamp = move |p: u32| p.clamp(1, max);
+    prop_oneof![
+        4 => (1u32..2000).prop_map(clamp),
+        4 => (0u32..600, -3i32..4).prop_map(move |(k, d)| clamp(((k as i64) * 16384 + d as i64).max(1) as u32)),
+        2 => (0u32..64, -3i32..4).prop_map(move |(k, d)| clamp(((k as i64) * (1 << 20) + d as i64).max(1) as u32)),
+        2 => (1u32..=max).prop_map(clamp),
+        1 => proptest::sample::select(vec![1u32, 2, 16383, 16384, 16385, 131072, (1 << 29) - 1, 1 << 29, (1 << 29) + 1, i32::MAX as u32 - 1, i32::MAX as u32]).prop_map(clamp),
+    ]
+    .boxed()
+}
+
+#[derive(Clone, Debug)]
+struct RawRecord {
+    chrom_sel: u16,
+    chrom_draw: u16,
+    chrom_name: String,
+    pos: u32,
+    pos_draw: u16,
+    ids: Vec<String>,
+    reference: String,
+    ref_draw: u8,
+    alts: Vec<RawAlt>,
+    qual: Option<u32>,
+    filter_kind: u8,
+    filter_sels: Vec<u16>,
+    filter_name: String,
+    infos: Vec<Pool>,
+    wild: (Vec<(u8, u16, String)>, Vec<i32>, Vec<u32>, Vec<char>, Vec<String>),
+    fmts: Vec<(u8, Vec<Pool>)>,
+    ploidy_max: u8,
+    sample_ploidy: Vec<u8>,
+    gts: Vec<Vec<(u16, u8, bool)>>,
+    drops: Vec<(u8, u8)>,
+    extra_fmt: (u8, String),
+    span_sel: u16,
+    hz: Vec<u16>,
+}
+
+fn record_id() -> BoxedStrategy<String> {
+    prop_oneof![
+        5 => (1u32..100_000_000).prop_map(|n| format!("rs{n}")),
+        3 => word("abcXYZrs_", "abcdefghijklmnopqrstuvwxyz0123456789_.:-+=,%|/", 8),
+        1 => proptest::collection::vec(proptest::sample::select(vec!["a", "1", ".", ",", ":", "=", "%3B", "é", "日", "|", "/", "<", ">"]), 1..4).prop_map(|v| v.concat()),
+    ]
+    .boxed()
+}
+
+/// One record consistent with `header` (cardinalities from the ALT count and ploidy for Number
+/// A/R/G, fixed counts for Number=n, 1.. for Number=., types per the header; for Target::Bcf only
+/// declared contigs, filters and keys). See `Mode` for the value domain.
+pub fn record(header: &VarHeader, mode: &Mode) -> BoxedStrategy<VarRecord> {
+    let h = header.clone();
+    let m = mode.clone();
+    let ns = header.samples.len();
+    let infos: Vec<BoxedStrategy<Pool>> = header.infos.iter().map(|d| pool(d.ty, mode)).collect();
+    let fmts: Vec<BoxedStrategy<(u8, Vec<Pool>)>> = header.formats.iter().map(|d| (0u8..100, proptest::collection::vec(pool(d.ty, mode), ns)).boxed()).collect();
+    let text = mode.target == Target::VcfText;
+    let wild = (
+        proptest::collection::vec((0u8..100, any::<u16>(), word("UW", ALNUM, 4)), 0..3),
+        proptest::collection::vec(int_valid(), 1..4),
+        proptest::collection::vec(float_bits(text), 1..4),
+        proptest::collection::vec(any_char(), 1..4),
+        proptest::collection::vec(rich_string(false), 1..4),
+    );
+    let nalt = prop_oneof![2 => 0usize..=0, 8 => 1usize..=1, 4 => 2usize..=2, 2 => 3usize..=3, 1 => 4usize..=6];
+    let alts = nalt.prop_flat_map({
+        let m = m.clone();
+        move |n| proptest::collection::vec(raw_alt(&m), n)
+    });
+    let qual = proptest::option::weighted(0.7, float_bits(text));
+    (
+        (any::<u16>(), 0u16..1000, word(CONTIG_FIRST, CONTIG_REST, 5), position(mode.max_pos), 0u16..1000, proptest::collection::vec(record_id(), 0..3), bases(3, mode.long_values), 0u8..100, alts, qual),
+        (0u8..100, proptest::collection::vec(any::<u16>(), 1..4), word("uf", ALNUM, 4), infos, wild, fmts),
+        (
+            prop_oneof![1 => Just(1u8), 7 => Just(2u8), 1 => Just(3u8), 1 => Just(4u8)],
+            proptest::collection::vec(0u8..100, ns),
+            proptest::collection::vec(proptest::collection::vec((any::<u16>(), 0u8..100, any::<bool>()), 4), ns),
+            proptest::collection::vec((0u8..100, 0u8..8), ns),
+            (0u8..100, word("UF", ALNUM, 3)),
+            any::<u16>(),
+            proptest::collection::vec(0u16..1000, N_HAZARDS),
+        ),
+    )
+        .prop_map(move |((chrom_sel, chrom_draw, chrom_name, pos, pos_draw, ids, reference, ref_draw, alts, qual), (filter_kind, filter_sels, filter_name, infos, wild, fmts), (ploidy_max, sample_ploidy, gts, drops, extra_fmt, span_sel, hz))| {
+            build_record(
+                &h,
+                &m,
+                RawRecord { chrom_sel, chrom_draw, chrom_name, pos, pos_draw, ids, reference, ref_draw, alts, qual, filter_kind, filter_sels, filter_name, infos, wild, fmts, ploidy_max, sample_ploidy, gts, drops, extra_fmt, span_sel, hz },
+            )
+        })
+        .boxed()
+}
+
+fn binom(n: u64, k: u64) -> u64 {
+    let k = k.min(n - k.min(n));
+    let mut r = 1u64;
+    for i in 0..k {
+        r = r * (n - i) / (i + 1);
+    }
+    r
+}
+
+/// Number of values a field of `number` holds for `n_alt` ALT alleles and `ploidy`.
+pub fn cardinality(number: Num, n_alt: usize, ploidy: usize, unknown_len: usize) -> usize {
+    match number {
+        Num::Count(n) => n as usize,
+        Num::A | Num::LA => n_alt,
+        Num::R | Num::LR => n_alt + 1,
+        Num::G | Num::LG => binom((n_alt + 1 + ploidy).saturating_sub(1) as u64, ploidy as u64) as usize,
+        Num::P => ploidy,
+        Num::Unknown | Num::M => unknown_len,
+    }
+}
+
+const UNKNOWN_LENS: [usize; 12] = [1, 1, 1, 2, 2, 3, 4, 5, 14, 15, 16, 17];
+const UNKNOWN_LENS_LONG: [usize; 14] = [1, 1, 1, 2, 2, 3, 4, 5, 14, 15, 16, 17, 130, 300];
+
+/// Arrays of very long strings stay short (a 300-element array of 66 000-byte strings is 20 MB).
+fn cap_for(v: &[String], n: usize) -> usize {
+    if v.iter().any(|s| s.len() > 1000) { n.min(2) } else { n }
+}
+
+fn cyc<T: Clone>(v: &[T], n: usize) -> Vec<T> {
+    (0..n).map(|i| v[i % v.len()].clone()).collect()
+}
+
+fn with_missing<T: Clone>(vals: Vec<T>, miss: &[u8], rate: u8) -> Vec<Option<T>> {
+    let n = vals.len();
+    let mut out: Vec<Option<T>> = vals.into_iter().enumerate().map(|(i, v)| if miss[i % miss.len()] < rate { None } else { Some(v) }).collect();
+    // `[.]` is not representable: keep the value
+    if n == 1 && out[0].is_none() {
+        return out;
+    }
+    if n > 1 && out.iter().all(|x| x.is_none()) && miss[0] >= rate / 2 {
+        // all-missing arrays of length ≥ 2 stay (".,." is representable); thin them out a little
+        out[0] = None;
+    }
+    out
+}
+
+/// `%` followed by two hexadecimal digits somewhere in `s`.
+pub fn has_percent_escape(s: &str) -> bool {
+    let b = s.as_bytes();
+    (0..b.len().saturating_sub(2)).any(|i| b[i] == b'%' && b[i + 1].is_ascii_hexdigit() && b[i + 2].is_ascii_hexdigit())
+}
+
+struct Ctx<'a> {
+    mode: &'a Mode,
+    hz: &'a [u16],
+}
+
+impl Ctx<'_> {
+    fn on(&self, h: Hazard) -> bool {
+        self.hz.get(h as usize).copied().unwrap_or(1000) < self.mode.hazard_permille
+    }
+    fn bcf(&self) -> bool {
+        self.mode.target == Target::Bcf
+    }
+    fn fix_char(&self, c: char, info: bool, in_array: bool) -> char {
+        let mut c = c;
+        if !c.is_ascii() && !self.on(Hazard::CharNonAscii) {
+            c = 'u';
+        }
+        if self.bcf() {
+            // stored raw: only `.` / `,` inside arrays and `.` as FORMAT scalar are ambiguous
+            if (c == '.' && (in_array || !info) || c == ',' && in_array) && !self.on(Hazard::DotValue) {
+                c = 'd';
+            }
+        } else {
+            let reserved = c.is_ascii_control() || matches!(c, '%' | ',' | '.') || if info { matches!(c, ';' | '=') } else { c == ':' };
+            if reserved && !self.on(Hazard::CharReserved) {
+                c = 'r';
+            }
+        }
+        c
+    }
+    fn fix_str(&self, s: &str, info: bool, in_array: bool) -> String {
+        let mut s = s.to_string();
+        if self.bcf() {
+            s.retain(|c| c != '\0');
+            if in_array && !self.on(Hazard::StrCommaInArray) {
+                s = s.replace(',', "_");
+            }
+            if in_array && has_percent_escape(&s) && !self.on(Hazard::StrArrayPercentEscape) {
+                s = s.replace('%', "p");
+            }
+            if s == "." && (in_array || !info) && !self.on(Hazard::DotValue) {
+                s = "dot".into();
+            }
+        }
+        if s.is_empty() {
+            s = "s".into();
+        }
+        s
+    }
+}
+
+fn info_value(d_num: Num, d_ty: Ty, p: &Pool, n_alt: usize, cx: &Ctx) -> Option<InfoValue> {
+    let lens: &[usize] = if cx.mode.long_values { &UNKNOWN_LENS_LONG } else { &UNKNOWN_LENS };
+    let n = cardinality(d_num, n_alt, 2, lens[pick_idx(p.len_sel, lens.len())]);
+    if d_ty == Ty::Flag {
+        return Some(InfoValue::Flag);
+    }
+    let scalar = d_num == Num::Count(1);
+    if n == 0 {
+        // Number=A with no ALT allele: the field has no values and is left out by the caller
+        return None;
+    }
+    Some(match &p.vals {
+        PoolVals::I(v) => {
+            if scalar {
+                InfoValue::Integer(v[0])
+            } else {
+                let mut a = with_missing(cyc(v, n), &p.miss, 10);
+                if cx.bcf() && a.len() == 1 && !cx.on(Hazard::InfoIntArrayLen1Wide) {
+                    a[0] = a[0].map(|x| if (-120..=127).contains(&x) { x } else { x.rem_euclid(100) });
+                }
+                InfoValue::IntArray(a)
+            }
+        }
+        PoolVals::F(v) => {
+            if scalar {
+                InfoValue::Float(v[0])
+            } else {
+                InfoValue::FloatArray(with_missing(cyc(v, n), &p.miss, 10))
+            }
+        }
+        PoolVals::C(v) => {
+            if scalar {
+                InfoValue::Character(cx.fix_char(v[0], true, false))
+            } else {
+                InfoValue::CharArray(with_missing(cyc(v, n).into_iter().map(|c| cx.fix_char(c, true, true)).collect(), &p.miss, 10))
+            }
+        }
+        PoolVals::S(v) => {
+            if scalar {
+                InfoValue::String(cx.fix_str(&v[0], true, false))
+            } else {
+                InfoValue::StrArray(with_missing(cyc(v, cap_for(v, n)).into_iter().map(|s| cx.fix_str(&s, true, true)).collect(), &p.miss, 10))
+            }
+        }
+        PoolVals::None => InfoValue::Flag,
+    })
+}
+
+fn sample_value(d_num: Num, _d_ty: Ty, p: &Pool, n_alt: usize, ploidy: usize, cx: &Ctx) -> Option<SampleValue> {
+    let lens: &[usize] = if cx.mode.long_values { &UNKNOWN_LENS_LONG } else { &UNKNOWN_LENS };
+    let n = cardinality(d_num, n_alt, ploidy, lens[pick_idx(p.len_sel, lens.len())]);
+    let scalar = d_num == Num::Count(1);
+    if n == 0 {
+        return None;
+    }
+    Some(match &p.vals {
+        PoolVals::I(v) => {
+            if scalar {
+                SampleValue::Integer(v[0])
+            } else {
+                SampleValue::IntArray(with_missing(cyc(v, n), &p.miss, 10))
+            }
+        }
+        PoolVals::F(v) => {
+            if scalar {
+                SampleValue::Float(v[0])
+            } else {
+                SampleValue::FloatArray(with_missing(cyc(v, n), &p.miss, 10))
+            }
+        }
+        PoolVals::C(v) => {
+            if scalar {
+                SampleValue::Character(cx.fix_char(v[0], false, false))
+            } else {
+                SampleValue::CharArray(with_missing(cyc(v, n).into_iter().map(|c| cx.fix_char(c, false, true)).collect(), &p.miss, 10))
+            }
+        }
+        PoolVals::S(v) => {
+            if scalar {
+                SampleValue::String(cx.fix_str(&v[0], false, false))
+            } else {
+                SampleValue::StrArray(with_missing(cyc(v, cap_for(v, n)).into_iter().map(|s| cx.fix_str(&s, false, true)).collect(), &p.miss, 10))
+            }
+        }
+        PoolVals::None => return None,
+    })
+}
+
+fn one_element_missing_info(v: &InfoValue) -> bool {
+    matches!(v, InfoValue::IntArray(a) if a.len() == 1 && a[0].is_none())
+        || matches!(v, InfoValue::FloatArray(a) if a.len() == 1 && a[0].is_none())
+        || matches!(v, InfoValue::CharArray(a) if a.len() == 1 && a[0].is_none())
+        || matches!(v, InfoValue::StrArray(a) if a.len() == 1 && a[0].is_none())
+}
+
+fn one_element_missing_sample(v: &SampleValue) -> bool {
+    matches!(v, SampleValue::IntArray(a) if a.len() == 1 && a[0].is_none())
+        || matches!(v, SampleValue::FloatArray(a) if a.len() == 1 && a[0].is_none())
+        || matches!(v, SampleValue::CharArray(a) if a.len() == 1 && a[0].is_none())
+        || matches!(v, SampleValue::StrArray(a) if a.len() == 1 && a[0].is_none())
+}
+
+const SPANS: [u32; 12] = [0, 0, 1, 2, 10, 100, 1000, 16383, 16384, 20000, 200_000, 5_000_000];
+
+fn build_record(h: &VarHeader, mode: &Mode, raw: RawRecord) -> VarRecord {
+    let cx = Ctx { mode, hz: &raw.hz };
+    let text = mode.target == Target::VcfText;
+    // CHROM
+    let chrom = if h.contigs.is_empty() || (text && mode.undeclared && raw.chrom_draw < 80) {
+        if h.contigs.is_empty() && !text { "sq0".to_string() } else { raw.chrom_name.clone() }
+    } else {
+        h.contigs[pick_idx(raw.chrom_sel, h.contigs.len())].id.clone()
+    };
+    // POS (0 = telomere, rare)
+    let pos = if raw.pos_draw < 6 && mode.telomere { 0 } else { raw.pos };
+    // ID
+    let mut ids: Vec<String> = Vec::new();
+    for id in &raw.ids {
+        let mut id: String = id.chars().filter(|c| !c.is_whitespace() && *c != ';').collect();
+        if id.is_empty() || id == "." {
+            id = "id".into();
+        }
+        if !ids.contains(&id) {
+            ids.push(id);
+        }
+    }
+    // REF (IUPAC codes: rare, VCF writers reduce them)
+    let mut reference = raw.reference.clone();
+    if raw.ref_draw < 3 && text {
+        reference = reference.chars().enumerate().map(|(i, c)| if i == 0 { ['R', 'Y', 'k', 'M', 'w', 'S', 'B', 'd', 'H', 'V'][(raw.ref_draw as usize * 3 + raw.span_sel as usize) % 10] } else { c }).collect();
+    }
+    // ALT
+    const STD_SYMBOLIC: [&str; 8] = ["DEL", "INS", "DUP", "INV", "CNV", "DUP:TANDEM", "*", "NON_REF"];
+    let mut alts: Vec<String> = Vec::new();
+    for a in &raw.alts {
+        let s = match a {
+            RawAlt::Bases(b) => b.clone(),
+            RawAlt::Symbolic(sel) => {
+                if !h.alts.is_empty() && sel % 4 != 0 {
+                    format!("<{}>", h.alts[pick_idx(*sel, h.alts.len())].id)
+                } else {
+                    format!("<{}>", STD_SYMBOLIC[pick_idx(*sel, STD_SYMBOLIC.len())])
+                }
+            }
+            RawAlt::Breakend(k, b, p) => {
+                let mate = if h.contigs.is_empty() { "17".to_string() } else { h.contigs[(*p as usize) % h.contigs.len()].id.clone() };
+                // a mate contig name with a comma-free alphabet is guaranteed by the contig grammar
+                match k {
+                    0 => format!("{b}[{mate}:{p}["),
+                    1 => format!("{b}]{mate}:{p}]"),
+                    2 => format!("]{mate}:{p}]{b}"),
+                    3 => format!("[{mate}:{p}[{b}"),
+                    4 => format!(".{b}"),
+                    _ => format!("{b}."),
+                }
+            }
+            RawAlt::Star => "*".to_string(),
+            RawAlt::NonRef => "<*>".to_string(),
+        };
+        alts.push(s);
+    }
+    let n_alt = alts.len();
+    // FILTER
+    let declared: Vec<&String> = h.filters.iter().map(|d| &d.id).filter(|id| *id != "PASS").collect();
+    let filters: Vec<String> = if raw.filter_kind < 30 {
+        vec![]
+    } else if raw.filter_kind < 55 || (declared.is_empty() && !(text && mode.undeclared && raw.filter_kind >= 93)) {
+        vec!["PASS".to_string()]
+    } else if raw.filter_kind < 93 || !(text && mode.undeclared) {
+        let mut v: Vec<String> = Vec::new();
+        for s in &raw.filter_sels {
+            let id = declared[pick_idx(*s, declared.len())].clone();
+            if !v.contains(&id) {
+                v.push(id);
+            }
+        }
+        v
+    } else {
+        vec![raw.filter_name.clone()]
+    };
+    // INFO
+    let mut entries: Vec<(u16, String, Option<InfoValue>)> = Vec::new();
+    for (d, p) in h.infos.iter().zip(&raw.infos) {
+        if p.present >= 55 {
+            continue;
+        }
+        let mut v = info_value(d.number, d.ty, p, n_alt, &cx);
+        if v.is_none() && d.ty != Ty::Flag {
+            // cardinality 0 (Number=A without ALT): leave the field out
+            continue;
+        }
+        if d.id == "END" && d.ty == Ty::Integer && d.number == Num::Count(1) {
+            let span = SPANS[pick_idx(raw.span_sel, SPANS.len())];
+            v = Some(InfoValue::Integer((pos.max(1) as u64 + span as u64).min(i32::MAX as u64) as i32));
+        }
+        if d.id == "SVLEN" && h.minor >= 5 {
+            v = v.map(|v| match v {
+                InfoValue::IntArray(a) => InfoValue::IntArray(a.into_iter().map(|x| x.map(|n| (n as i64).unsigned_abs().min(3_000_000) as i32)).collect()),
+                InfoValue::Integer(n) => InfoValue::Integer((n as i64).unsigned_abs().min(3_000_000) as i32),
+                v => v,
+            });
+        }
+        let whole_missing = p.whole_missing < 6 || v.as_ref().map(one_element_missing_info).unwrap_or(false);
+        if whole_missing && (!cx.bcf() || cx.on(Hazard::InfoMissingValue)) {
+            v = None;
+        } else if let Some(x) = &mut v {
+            // not allowed to go missing: replace a lone missing element by its pool value
+            if one_element_missing_info(x) {
+                *x = match (&p.vals, &*x) {
+                    (PoolVals::I(vs), _) => InfoValue::IntArray(vec![Some(vs[0].rem_euclid(100))]),
+                    (PoolVals::F(vs), _) => InfoValue::FloatArray(vec![Some(vs[0])]),
+                    (PoolVals::C(vs), _) => InfoValue::CharArray(vec![Some(cx.fix_char(vs[0], true, true))]),
+                    (PoolVals::S(vs), _) => InfoValue::StrArray(vec![Some(cx.fix_str(&vs[0], true, true))]),
+                    (PoolVals::None, x) => x.clone(),
+                };
+            }
+        }
+        entries.push((p.order, d.id.clone(), v));
+    }
+    if text && mode.undeclared {
+        let (keys, wi, wf, wc, ws) = &raw.wild;
+        for (kind, order, name) in keys {
+            if *kind < 40 {
+                continue;
+            }
+            if *kind < 60 && h.minor >= 3 {
+                // reserved id without a header line: typed by the specification's definition
+                let id = RESERVED_INFO_IDS[pick_idx(*order, RESERVED_INFO_IDS.len())];
+                if h.info(id).is_some() || id == "END" || entries.iter().any(|e| e.1 == id) {
+                    continue;
+                }
+                if let Some((num, ty)) = reserved_info_def(h.minor, id) {
+                    let vals = match ty {
+                        Ty::Integer => PoolVals::I(wi.clone()),
+                        Ty::Float => PoolVals::F(wf.clone()),
+                        Ty::Character => PoolVals::C(wc.clone()),
+                        Ty::String => PoolVals::S(ws.clone()),
+                        Ty::Flag => PoolVals::None,
+                    };
+                    let p = Pool { vals, miss: vec![50], len_sel: *order, present: 0, order: *order, whole_missing: 50 };
+                    let mut v = info_value(num, ty, &p, n_alt, &cx);
+                    if id == "SVLEN" && h.minor >= 5 {
+                        v = v.map(|v| match v {
+                            InfoValue::IntArray(a) => InfoValue::IntArray(a.into_iter().map(|x| x.map(|n| (n as i64).unsigned_abs().min(3_000_000) as i32)).collect()),
+                            v => v,
+                        });
+                    }
+                    if v.is_some() {
+                        entries.push((*order, id.to_string(), v));
+                    }
+                }
+            } else if !entries.iter().any(|e| &e.1 == name) && h.info(name).is_none() {
+                // undeclared custom id: a String (Number=1) or a Flag
+                let v = if *kind < 85 { Some(InfoValue::String(cx.fix_str(&ws[0], true, false))) } else if *kind < 95 { Some(InfoValue::Flag) } else { None };
+                entries.push((*order, name.clone(), v));
+            }
+        }
+    }
+    entries.sort_by_key(|e| e.0);
+    let info: Vec<(String, Option<InfoValue>)> = entries.into_iter().map(|(_, k, v)| (k, v)).collect();
+    // FORMAT / samples
+    let ns = h.samples.len();
+    let mut format: Vec<String> = Vec::new();
+    let mut samples: Vec<Vec<Option<SampleValue>>> = vec![Vec::new(); ns];
+    if ns > 0 {
+        // ploidy per sample
+        let pmax = raw.ploidy_max.max(1) as usize;
+        let ploidy: Vec<usize> = (0..ns)
+            .map(|i| {
+                let d = raw.sample_ploidy[i];
+                if i == 0 || d < 70 {
+                    pmax
+                } else if d < 85 || (cx.bcf() && !cx.on(Hazard::GtRagged)) {
+                    1
+                } else {
+                    1 + (d as usize) % pmax.max(1)
+                }
+            })
+            .collect();
+        let mut chosen: Vec<usize> = (0..h.formats.len()).filter(|&i| raw.fmts[i].0 < 60).collect();
+        if chosen.is_empty() && !h.formats.is_empty() {
+            chosen.push((raw.span_sel as usize) % h.formats.len());
+        }
+        // GT, if chosen, goes first
+        if let Some(p) = chosen.iter().position(|&i| h.formats[i].id == "GT") {
+            let g = chosen.remove(p);
+            chosen.insert(0, g);
+        }
+        let undeclared_gt = text && mode.undeclared && h.format("GT").is_none() && raw.extra_fmt.0 < 25;
+        if undeclared_gt {
+            format.push("GT".to_string());
+        }
+        for &fi in &chosen {
+            format.push(h.formats[fi].id.clone());
+        }
+        let extra_key = text && mode.undeclared && raw.extra_fmt.0 >= 90 && h.format(&raw.extra_fmt.1).is_none();
+        if extra_key || format.is_empty() {
+            if text && mode.undeclared {
+                format.push(raw.extra_fmt.1.clone());
+            }
+        }
+        let gt_value = |si: usize| -> Option<SampleValue> {
+            let mut al: Vec<Allele> = raw.gts[si][..ploidy[si].min(4)]
+                .iter()
+                .map(|(sel, miss, ph)| {
+                    let a = if *miss < 12 { None } else { Some(pick_idx(*sel, n_alt + 1) as u32) };
+                    (a, *ph)
+                })
+                .collect();
+            if cx.bcf() && !cx.on(Hazard::GtPhasedMissing) {
+                for (i, a) in al.iter_mut().enumerate() {
+                    // the first allele's bit is governed by the rule below
+                    if a.0.is_none() && i > 0 {
+                        a.1 = false;
+                    }
+                }
+                if al[0].0.is_none() && h.minor >= 4 {
+                    al[0].1 = false;
+                }
+            }
+            if h.minor < 4 {
+                al[0].1 = implicit_first_phasing(&al);
+                if cx.bcf() && al[0].0.is_none() && al[0].1 && !cx.on(Hazard::GtPhasedMissing) {
+                    // implicit phasing of a missing first allele would be "phased": make the
+                    // genotype contain an unphased separator, or give the allele a value
+                    if al.len() > 1 {
+                        al[1].1 = false;
+                        al[0].1 = implicit_first_phasing(&al);
+                    } else {
+                        al[0].0 = Some(0);
+                    }
+                }
+            }
+            Some(SampleValue::Genotype(al))
+        };
+        // a value that is never missing (used where a missing one would leave the safe domain)
+        let solid = |key: &str, declared_fi: Option<usize>, si: usize| -> SampleValue {
+            if key == "GT" {
+                let mut g = match gt_value(si) {
+                    Some(SampleValue::Genotype(g)) => g,
+                    _ => vec![(Some(0), true)],
+                };
+                if g.len() == 1 && g[0].0.is_none() {
+                    g[0].0 = Some(0);
+                }
+                return SampleValue::Genotype(g);
+            }
+            let Some(fi) = declared_fi else {
+                return SampleValue::String(cx.fix_str(&raw.wild.4[si % raw.wild.4.len()], false, false));
+            };
+            let d = &h.formats[fi];
+            let p = &raw.fmts[fi].1[si];
+            let n = cardinality(d.number, n_alt, ploidy[si], 1).max(1);
+            let scalar = d.number == Num::Count(1);
+            match &p.vals {
+                PoolVals::I(v) => {
+                    if scalar {
+                        SampleValue::Integer(v[0])
+                    } else {
+                        SampleValue::IntArray(cyc(v, n).into_iter().map(Some).collect())
+                    }
+                }
+                PoolVals::F(v) => {
+                    if scalar {
+                        SampleValue::Float(v[0])
+                    } else {
+                        SampleValue::FloatArray(cyc(v, n).into_iter().map(Some).collect())
+                    }
+                }
+                PoolVals::C(v) => {
+                    if scalar {
+                        SampleValue::Character(cx.fix_char(v[0], false, false))
+                    } else {
+                        SampleValue::CharArray(cyc(v, n).into_iter().map(|c| Some(cx.fix_char(c, false, true))).collect())
+                    }
+                }
+                PoolVals::S(v) => {
+                    if scalar {
+                        SampleValue::String(cx.fix_str(&v[0], false, false))
+                    } else {
+                        SampleValue::StrArray(cyc(v, cap_for(v, n)).into_iter().map(|s| Some(cx.fix_str(&s, false, true))).collect())
+                    }
+                }
+                PoolVals::None => SampleValue::Integer(0),
+            }
+        };
+        for (ki, key) in format.clone().iter().enumerate() {
+            let declared_fi = chosen.iter().copied().find(|&fi| &h.formats[fi].id == key);
+            let mut col: Vec<Option<SampleValue>> = Vec::with_capacity(ns);
+            for si in 0..ns {
+                let v = if key == "GT" {
+                    let missing_gt = raw.gts[si][0].1 >= 97;
+                    if missing_gt && (!cx.bcf() || cx.on(Hazard::GtMissing)) { None } else { gt_value(si) }
+                } else if let Some(fi) = declared_fi {
+                    let d = &h.formats[fi];
+                    let p = &raw.fmts[fi].1[si];
+                    let mut v = sample_value(d.number, d.ty, p, n_alt, ploidy[si], &cx);
+                    if d.id == "LEN" && h.minor >= 5 {
+                        v = v.map(|v| match v {
+                            SampleValue::Integer(n) => SampleValue::Integer((n as i64).unsigned_abs().min(3_000_000) as i32),
+                            v => v,
+                        });
+                    }
+                    if p.whole_missing < 12 || v.as_ref().map(one_element_missing_sample).unwrap_or(false) { None } else { v }
+                } else {
+                    // undeclared key: String, Number=1
+                    Some(SampleValue::String(cx.fix_str(&raw.wild.4[si % raw.wild.4.len()], false, false)))
+                };
+                col.push(v);
+            }
+            // BCF: a column in which every sample is missing is a hazard class; otherwise give
+            // the first sample a value
+            if cx.bcf() && key != "GT" && col.iter().all(|v| v.is_none()) && !cx.on(Hazard::ColumnAllMissing) {
+                col[0] = Some(solid(key, declared_fi, 0));
+            }
+            let _ = ki;
+            for (si, v) in col.into_iter().enumerate() {
+                samples[si].push(v);
+            }
+        }
+        // trailing fields dropped
+        for (si, row) in samples.iter_mut().enumerate() {
+            let (draw, n) = raw.drops[si];
+            if draw < 15 && !row.is_empty() {
+                let keep_min = if text && !cx.on(Hazard::EmptySampleRow) { 1 } else if cx.bcf() { 1 } else { 0 };
+                let n = (n as usize).min(row.len() - keep_min.min(row.len()));
+                row.truncate(row.len() - n);
+            }
+        }
+        // BCF: dropping fields must not leave a column in which every sample is missing
+        if cx.bcf() && !cx.on(Hazard::ColumnAllMissing) {
+            for ki in 0..format.len() {
+                if format[ki] == "GT" {
+                    continue;
+                }
+                if samples.iter().all(|row| row.get(ki).map(|v| v.is_none()).unwrap_or(true)) {
+                    let declared_fi = chosen.iter().copied().find(|&fi| h.formats[fi].id == format[ki]);
+                    while samples[0].len() <= ki {
+                        samples[0].push(None);
+                    }
+                    samples[0][ki] = Some(solid(&format[ki], declared_fi, 0));
+                }
+            }
+        }
+        // VCF text: a sample column that is `.` (no value, or a single missing one) is a hazard
+        // class (see Hazard::EmptySampleRow); otherwise give its first key a value
+        if text && !format.is_empty() && !cx.on(Hazard::EmptySampleRow) {
+            let key0 = format[0].clone();
+            let declared0 = chosen.iter().copied().find(|&fi| h.formats[fi].id == key0);
+            for si in 0..ns {
+                let degenerate = samples[si].is_empty()
+                    || samples[si].len() == 1
+                        && match &samples[si][0] {
+                            None => true,
+                            Some(SampleValue::Genotype(g)) => h.minor < 4 && g.len() == 1 && g[0].0.is_none(),
+                            _ => false,
+                        };
+                if degenerate {
+                    samples[si] = vec![Some(solid(&key0, declared0, si))];
+                }
+            }
+        }
+        if format.is_empty() {
+            // a header with samples but no FORMAT definitions (BCF target): no way to write sample
+            // columns — the generator's header() guarantees this only happens with no formats
+            samples = vec![Vec::new(); ns];
+        }
+    }
+    let mut r = VarRecord { chrom, pos, ids, reference, alts, qual: raw.qual, filters, info, format, samples };
+    // fileformat 4.5: FORMAT LEN and INFO SVLEN take part in the span arithmetic and must be ≥ 0
+    if h.minor >= 5 {
+        let fix = |n: i32| (n as i64).unsigned_abs().min(3_000_000) as i32;
+        if let Some(ki) = r.format.iter().position(|k| k == "LEN") {
+            for row in r.samples.iter_mut() {
+                match row.get_mut(ki) {
+                    Some(Some(SampleValue::Integer(n))) => *n = fix(*n),
+                    Some(Some(SampleValue::IntArray(a))) => a.iter_mut().for_each(|x| *x = x.map(fix)),
+                    _ => {}
+                }
+            }
+        }
+        for (k, v) in r.info.iter_mut() {
+            if k == "SVLEN" {
+                match v {
+                    Some(InfoValue::Integer(n)) => *n = fix(*n),
+                    Some(InfoValue::IntArray(a)) => a.iter_mut().for_each(|x| *x = x.map(fix)),
+                    _ => {}
+                }
+            }
+        }
+    }
+    if r.format.is_empty() {
+        r.samples.clear();
+    }
+    r
+}
+
+/// A header and 0..=max_records records consistent with it.
+pub fn document(tier: Tier, mode: &Mode) -> BoxedStrategy<VarDoc> {
+    let mode = mode.clone();
+    let n = mode.max_records;
+    header(tier, &mode)
+        .prop_flat_map(move |h| {
+            let hh = h.clone();
+            proptest::collection::vec(record(&h, &mode), 0..=n).prop_map(move |records| VarDoc { header: hh.clone(), records })
+        })
+        .boxed()
+}
